@@ -1,10 +1,24 @@
 """C07 — regularization matrices are symmetric PSD/PD with the stated quadratic form."""
 from __future__ import annotations
 
+import copy
 import math
+import os
 from fractions import Fraction
 
+# one BLAS thread: the mid-size cases (hundreds to ~2000 parameters) call LAPACK, and a multi-threaded OpenBLAS on a
+# loaded machine is 100-1000x slower than a single thread at these sizes
+for _v in ("OPENBLAS_NUM_THREADS", "OMP_NUM_THREADS", "MKL_NUM_THREADS"):
+    os.environ.setdefault(_v, "1")
+
 import numpy as np
+
+try:
+    import threadpoolctl as _tpc
+
+    _BLAS_LIMIT = _tpc.threadpool_limits(limits=1)
+except Exception:  # pragma: no cover
+    _BLAS_LIMIT = None
 
 import gen
 from common import Cmp, PropertyCheck, Skip, load_autoarray, mask_json, mask_from_json, q, qlist, qmat
@@ -20,6 +34,7 @@ PD_SCHEMES = {"Constant", "ConstantZeroth", "AdaptiveBrightness", "ConstantSplit
               "AdaptiveBrightnessSplit", "GaussianKernel", "ExponentialKernel"}
 SIGNAL_SCHEMES = {"AdaptiveBrightness", "BrightnessZeroth", "AdaptiveBrightnessSplit"}
 
+READS_KINDS = ("reuse", "own")  # histories whose observation is a list of scheme reads
 EXACT_LDL_MAX = 14  # exact rational LDL^T up to this size, float Cholesky + eigvalsh above
 COND_COMPARE_MAX = 1e4  # kernel schemes: model-vs-implementation comparison of inv() only below this
 COND_ORACLE_MAX = 1e6  # kernel schemes: the float inverse is meaningless above this
@@ -39,12 +54,20 @@ def fl(s):
 class _MeshGrid:
     """a source-plane mesh grid reduced to what the regularization schemes read from it"""
 
-    def __init__(self, aa, points, neighbors, sizes):
+    def __init__(self, aa, points, neighbors, sizes, lay=None):
         from autoarray.inversion.linear_obj.neighbors import Neighbors
 
+        lay = lay or {}
         self._pts = (points if isinstance(points, np.ndarray) else np.array(points, dtype=float)).reshape(-1, 2)
-        self.neighbors = Neighbors(arr=np.array(neighbors, dtype=int).reshape(len(sizes), -1),
-                                   sizes=np.array(sizes, dtype=int))
+        if lay.get("points"):
+            self._pts = _lay(self._pts, lay["points"])
+        arr = np.array(neighbors, dtype=int).reshape(len(sizes), -1)
+        sz = np.array(sizes, dtype=int)
+        if lay.get("neighbors"):
+            arr = _lay(arr, lay["neighbors"])
+        if lay.get("sizes"):
+            sz = _lay(sz, lay["sizes"])
+        self.neighbors = Neighbors(arr=arr, sizes=sz)
         self.shape = self._pts.shape
 
     @property
@@ -58,14 +81,53 @@ class _MeshGrid:
         return len(self._pts)
 
 
+def _lay(a, how):
+    """the same values in another memory layout / container (R5-C); `how` None = as is"""
+    if how in (None, "C"):
+        return a
+    if how == "list":
+        return np.asarray(a).tolist()
+    if how == "tuple":
+        return tuple(tuple(r) if isinstance(r, list) else r for r in np.asarray(a).tolist())
+    a = np.asarray(a)
+    if how == "F":
+        return np.asfortranarray(a)
+    if how == "T":  # transposed view of a C-ordered array holding the transpose
+        return np.ascontiguousarray(a.T).T
+    if how == "strided":  # every second element of a larger buffer along every axis (non-contiguous)
+        big = np.full(tuple(2 * n + 1 for n in a.shape), 7, dtype=a.dtype)
+        big[tuple(slice(1, None, 2) for _ in a.shape)] = a
+        return big[tuple(slice(1, None, 2) for _ in a.shape)]
+    if how == "rev":  # negative strides
+        return np.ascontiguousarray(a[tuple(slice(None, None, -1) for _ in a.shape)])[
+            tuple(slice(None, None, -1) for _ in a.shape)]
+    if how == "offset":  # contiguous window into a larger buffer (does not own its data)
+        flat = np.full(a.size + 5, 7, dtype=a.dtype)
+        flat[3:3 + a.size] = a.ravel()
+        return flat[3:3 + a.size].reshape(a.shape)
+    if how == "readonly":
+        b = a.copy()
+        b.flags.writeable = False
+        return b
+    if how in ("float32", "int32", "int64", "int16", "float64"):
+        b = a.astype(how)
+        if not np.array_equal(b.astype(float), np.asarray(a, dtype=float)):
+            return a  # not representable: leave as is
+        return b
+    raise ValueError(how)
+
+
 def _split_arrays(sp):
     return (np.array(sp["mappings"], dtype=int), np.array(sp["sizes"], dtype=int),
             np.array([[fl(v) for v in r] for r in sp["weights"]], dtype=float))
 
 
-def _mock_mapper(aa, mock, regularization=None):
+def _mock_mapper(aa, mock, regularization=None, lay=None, keep=None):
+    """`lay`: {"points" | "neighbors" | "sizes" | "signals": layout} (R5-C); `keep`: a dict that receives the arrays
+    handed to the mock (so that an ownership history can scribble over them afterwards)"""
     from autoarray.inversion.pixelization.mappers.abstract import PixSubWeights
 
+    lay = lay or mock.get("lay") or {}
     n = mock["params"]
     pts = [[fl(a), fl(b)] for a, b in mock.get("points", [["0", "0"]] * n)]
     as_int = bool(mock.get("int_inputs"))
@@ -73,7 +135,7 @@ def _mock_mapper(aa, mock, regularization=None):
         pts = np.array([[int(a), int(b)] for a, b in pts], dtype=np.int64).reshape(-1, 2)
     width = max([len(r) for r in mock["neighbors"]] + [1])
     nbrs = [list(r) + [-1] * (width - len(r)) for r in mock["neighbors"]]
-    mesh = _MeshGrid(aa, pts, nbrs if n else np.zeros((0, 1)), mock["sizes"])
+    mesh = _MeshGrid(aa, pts, nbrs if n else np.zeros((0, 1)), mock["sizes"], lay=lay)
     psw = None
     if mock.get("split"):
         m, s, w = _split_arrays(mock["split"])
@@ -81,6 +143,11 @@ def _mock_mapper(aa, mock, regularization=None):
     sig = np.array([fl(v) for v in mock["signals"]]) if mock.get("signals") is not None else None
     if sig is not None and as_int and all(float(v).is_integer() for v in sig):
         sig = sig.astype(np.int64)
+    if sig is not None and lay.get("signals"):
+        sig = _lay(sig, lay["signals"])
+    if keep is not None:
+        keep.update({"points": mesh._pts, "neighbors": np.asarray(mesh.neighbors), "sizes": mesh.neighbors.sizes,
+                     "signals": sig})
     return aa.m.MockMapper(source_plane_mesh_grid=mesh, pixel_signals=sig,
                            pix_sub_weights_split_cross=psw, regularization=regularization)
 
@@ -88,10 +155,21 @@ def _mock_mapper(aa, mock, regularization=None):
 def _typed(v, how):
     """the same real number handed over as a Python float / int / numpy scalar"""
     f = Fraction(v)
+    if Fraction(float(f)) != f:
+        # every generated number is an exact double, so that model and oracle see what the code sees; anything else
+        # is a slip of a generator and must never turn into a report
+        raise Skip("generated value is not an exact double")
     if how == "int" and f.denominator == 1:
         return int(f)
-    if how == "np32" and Fraction(float(np.float32(float(f)))) == f:
+    if how == "np32" and Fraction(float(np.float32(float(f)))) == f \
+            and Fraction(float(np.float32(float(f)) * np.float32(float(f)))) == f * f:
+        # (the schemes square their coefficients / scales in the argument's own dtype: only values whose square is a
+        #  float32 too, so that numpy's promotion rules cannot round)
         return np.float32(float(f))
+    if how == "0d":
+        return np.array(float(f))
+    if how == "bool" and f in (0, 1):
+        return bool(f)
     if how == "np64":
         return np.float64(float(f))
     return float(f)
@@ -128,12 +206,21 @@ def _make_scheme(aa, name, args, signal_scale, how="float", defaults=False):
     raise ValueError(name)
 
 
-def _real_mapper(aa, case):
-    """a real MapperRectangular / MapperDelaunay built through the public classes"""
+def _real_mapper(aa, case, keep=None, mesh_obj=None):
+    """a real MapperRectangular / MapperDelaunay built through the public classes.  `case["lay"]`: layout /
+    container variants of the inputs (R5-C); `keep`: receives the arrays handed over; `mesh_obj`: an existing mesh
+    object to build the mapper on (two mappers sharing one mesh)"""
+    lay = case.get("lay") or {}
     m = mask_from_json(case["mask"])
     scales = (fl(case["scales"][0]), fl(case["scales"][1]))
     origin = (fl(case["origin"][0]), fl(case["origin"][1]))
+    if lay.get("mask") in ("F", "strided", "readonly", "rev", "offset"):
+        m = _lay(m, lay["mask"])
+    elif lay.get("mask") == "list":
+        m = m.tolist()
     mask = aa.Mask2D(mask=m, pixel_scales=scales, origin=origin)
+    if lay.get("mask") == "from_mask":  # a mask built from a mask, geometry given again explicitly
+        mask = aa.Mask2D(mask=mask, pixel_scales=scales, origin=origin)
     osamp = aa.OverSamplerUniform(mask=mask, sub_size=case["sub"])
     grid = osamp.over_sampled_grid
     ad = [Fraction(v) for v in case["adapt"]]
@@ -141,7 +228,23 @@ def _real_mapper(aa, case):
         adapt_vals = [int(v) for v in ad]  # plain Python ints
     else:
         adapt_vals = np.array([float(v) for v in ad])
+    al = lay.get("adapt")
+    if al == "native":  # natively stored (2D, zeros at masked pixels) instead of slim
+        nat = np.zeros(np.asarray(mask).shape)
+        nat[~np.asarray(mask, dtype=bool)] = [float(v) for v in ad]
+        adapt_vals = nat
+    elif al == "native_F":
+        nat = np.zeros(np.asarray(mask).shape)
+        nat[~np.asarray(mask, dtype=bool)] = [float(v) for v in ad]
+        adapt_vals = np.asfortranarray(nat)
+    elif al is not None and al != "array2d":
+        adapt_vals = _lay(np.array([float(v) for v in ad]), al)
     adapt = aa.Array2D(values=adapt_vals, mask=mask)
+    if al == "array2d":  # an Array2D built from an Array2D
+        adapt = aa.Array2D(values=adapt, mask=mask)
+    if keep is not None:
+        keep["adapt"] = adapt_vals if isinstance(adapt_vals, np.ndarray) else None
+        keep["adapt_obj"] = adapt
     route = case.get("route", "direct")
     if case["source"] == "rect":
         if route == "mesh":
@@ -149,7 +252,8 @@ def _real_mapper(aa, case):
             mg = aa.mesh.Rectangular(shape=tuple(case["mesh_shape"])).mapper_grids_from(
                 mask=mask, source_plane_data_grid=grid, adapt_data=adapt)
             return aa.Mapper(mapper_grids=mg, regularization=None, over_sampler=osamp)
-        mesh = aa.Mesh2DRectangular.overlay_grid(grid=grid, shape_native=tuple(case["mesh_shape"]))
+        mesh = mesh_obj if mesh_obj is not None else \
+            aa.Mesh2DRectangular.overlay_grid(grid=grid, shape_native=tuple(case["mesh_shape"]))
         cls = aa.MapperRectangular
     else:
         P = [[Fraction(a), Fraction(b)] for a, b in case["points"]]
@@ -163,12 +267,16 @@ def _real_mapper(aa, case):
             rows = [[float(a), float(b)] for a, b in P]
             pts = {"list": rows, "tuple": tuple(tuple(r) for r in rows), "ndarray": np.array(rows),
                    "irregular": aa.Grid2DIrregular(values=rows)}.get(cont, np.array(rows))
+        if lay.get("points") and isinstance(pts, np.ndarray):
+            pts = _lay(pts, lay["points"])
+        if keep is not None:
+            keep["points"] = pts if isinstance(pts, np.ndarray) else None
         if route == "mesh":
             mg = aa.mesh.Delaunay().mapper_grids_from(
                 mask=mask, source_plane_data_grid=grid,
                 source_plane_mesh_grid=aa.Grid2DIrregular(values=rows), adapt_data=adapt)
             return aa.Mapper(mapper_grids=mg, regularization=None, over_sampler=osamp)
-        mesh = aa.Mesh2DDelaunay(values=pts)
+        mesh = mesh_obj if mesh_obj is not None else aa.Mesh2DDelaunay(values=pts)
         cls = aa.MapperDelaunay
     mg = aa.MapperGrids(mask=mask, source_plane_data_grid=grid, source_plane_mesh_grid=mesh,
                         image_plane_mesh_grid=None, adapt_data=adapt)
@@ -260,6 +368,48 @@ def quad_abs(H, x):
     return sum(abs(x[i] * H[i][j] * x[j]) for i in range(n) for j in range(n))
 
 
+class IntMat:
+    """a rational matrix over its common denominator: exact quadratic forms in integer arithmetic (the same values
+    as `quad` / `quad_abs`, several times faster than Fraction arithmetic)"""
+
+    def __init__(self, H):
+        den = 1
+        for r in H:
+            for v in r:
+                d = v.denominator
+                if den % d:
+                    den = den * d // math.gcd(den, d)
+        self.den = den
+        self.rows = [[v.numerator * (den // v.denominator) for v in r] for r in H]
+
+    def quad_both(self, x):
+        """(x^T H x, sum |x_i H_ij x_j|) for a vector of integers (as Fractions or ints)"""
+        xi = [int(v) for v in x]
+        if any(Fraction(a) != b for a, b in zip(xi, x)):
+            return quad(self._frac(), x), quad_abs(self._frac(), x)
+        tot = tot_abs = 0
+        for i, r in enumerate(self.rows):
+            if xi[i] == 0:
+                continue
+            acc = acc_abs = 0
+            for j, v in enumerate(r):
+                if v and xi[j]:
+                    t = v * xi[j]
+                    acc += t
+                    acc_abs += abs(t)
+            tot += xi[i] * acc
+            tot_abs += abs(xi[i]) * acc_abs
+        return Fraction(tot, self.den), Fraction(tot_abs, self.den)
+
+    def _frac(self):
+        return [[Fraction(v, self.den) for v in r] for r in self.rows]
+
+
+def case_scale(H):
+    """largest absolute entry"""
+    return max([abs(v) for r in H for v in r] + [Fraction(0)])
+
+
 def test_vectors(rng_seed, n):
     import random
 
@@ -289,7 +439,7 @@ class C07(PropertyCheck):
         "thorough": "every rectangular mesh shape 3..9 x 3..9 (real Mesh2DRectangular neighbour tables) under each of the 7 non-split schemes; rectangular_neighbors_from / Mesh2DRectangular.neighbors on every shape 2..18 x 2..18",
     }
     # loop ties (DESIGN §12): regenerated from the source on every run, tie theorems proved for all sizes
-    loop_tie_modules = ["LoopsReg"]
+    loop_tie_modules = ["LoopsReg", "LoopsSignals"]
     modelled_functions = [
         "autoarray/inversion/regularization/regularization_util.py:zeroth_regularization_matrix_from",
         "autoarray/inversion/regularization/regularization_util.py:constant_regularization_matrix_from",
@@ -526,6 +676,1496 @@ class C07(PropertyCheck):
             o["split"] = self._mock_split(rng, n)
         return o
 
+    # ------------------------------------------------------------------ histories of scheme reads (kinds reuse / own)
+    ARG_ATTRS = {"Constant": ["coefficient"], "ConstantZeroth": ["coefficient_neighbor", "coefficient_zeroth"],
+                 "Zeroth": ["coefficient"], "AdaptiveBrightness": ["inner_coefficient", "outer_coefficient"],
+                 "BrightnessZeroth": ["coefficient"], "ConstantSplit": ["coefficient"],
+                 "AdaptiveBrightnessSplit": ["inner_coefficient", "outer_coefficient"],
+                 "GaussianKernel": ["coefficient", "scale"], "ExponentialKernel": ["coefficient", "scale"]}
+
+    def _fresh_inputs(self, aa, world, name, args, signal_scale):
+        """the tables the model and the oracle judge a read by: those of a FRESH linear object built from the world's
+        CURRENT specification (never those of the reused object)"""
+        if world["source"] == "mock":
+            tables = copy.deepcopy({k: v for k, v in world["mock"].items() if k != "lay"})
+            inputs = {"tables": tables, "args": list(args)}
+        else:
+            spec = {k: v for k, v in world.items() if k not in ("lay", "share_mesh_with")}
+            mapper = _real_mapper(aa, spec)
+            tables = _tables_of(mapper, name, signal_scale or "1", name in SPLIT_SCHEMES)
+            inputs = {"tables": tables, "args": list(args)}
+            if name not in KERNEL_SCHEMES:
+                inputs["closed"] = _closed_obj(mapper, spec, name, tables, signal_scale or "1")
+                if "csr" in inputs["closed"]:
+                    inputs["simplices"] = [[int(v) for v in sx] for sx in mapper.source_plane_mesh_grid.delaunay.simplices]
+        cov = None
+        if name in KERNEL_SCHEMES:
+            from autoarray.inversion.regularization import gaussian_kernel, exponential_kernel
+
+            P = np.array([[fl(a), fl(b)] for a, b in tables["points"]])
+            sc = fl(args[1])
+            C = (gaussian_kernel.gauss_cov_matrix_from(scale=sc, pixel_points=P) if name == "GaussianKernel"
+                 else exponential_kernel.exp_cov_matrix_from(scale=sc, pixel_points=P))
+            cov = qmat(C)
+            inputs["cond"] = float(np.linalg.cond(C))
+        return inputs, cov
+
+    def _impl_reads(self, aa, case):
+        from autoconf import conf
+
+        worlds = [copy.deepcopy(w) for w in case["worlds"]]
+        pool = [copy.deepcopy(p) for p in case["pool"]]
+        objs, keeps = [None] * len(worlds), [None] * len(worlds)
+        insts = {}
+        reads, held = [], []
+        last = []  # the arrays the most recent reads returned
+        settings = aa.SettingsInversion(use_w_tilde=False)
+        preloads = aa.Preloads()
+        conf_saved = []
+
+        def build(k):
+            keep = {}
+            w = worlds[k]
+            if w["source"] == "mock":
+                objs[k] = _mock_mapper(aa, w["mock"], lay=w.get("lay"), keep=keep)
+            else:
+                mesh_obj = None
+                j = w.get("share_mesh_with")
+                if j is not None and objs[j] is not None and w.get("route", "direct") == "direct":
+                    mesh_obj = objs[j].source_plane_mesh_grid
+                objs[k] = _real_mapper(aa, w, keep=keep, mesh_obj=mesh_obj)
+            keeps[k] = keep
+
+        def set_attrs(r, sp):
+            how = sp.get("arg_type", "float")
+            for a, v in zip(self.ARG_ATTRS[sp["scheme"]], sp["args"]):
+                setattr(r, a, _typed(v, how))
+            if sp.get("signal_scale") is not None and hasattr(r, "signal_scale"):
+                r.signal_scale = _typed(sp["signal_scale"], how)
+
+        def inst(i, fresh=False):
+            sp = pool[i]
+            if fresh:
+                return _make_scheme(aa, sp["scheme"], sp["args"], sp.get("signal_scale"), sp.get("arg_type", "float"))
+            if i not in insts:
+                if sp.get("copy_of") is not None:
+                    # a copy of another pool instance with some attribute changed: both answer for their own values
+                    r = (copy.deepcopy if sp.get("deep") else copy.copy)(inst(sp["copy_of"]))
+                    set_attrs(r, sp)
+                    insts[i] = r
+                else:
+                    insts[i] = _make_scheme(aa, sp["scheme"], sp["args"], sp.get("signal_scale"),
+                                            sp.get("arg_type", "float"))
+            return insts[i]
+
+        def scribble(arrs):
+            for a in arrs:
+                if isinstance(a, np.ndarray) and a.size:
+                    try:
+                        base = a.view(np.ndarray)
+                        if base.dtype.kind == "f":
+                            base[...] = np.nan
+                        elif base.dtype.kind in "iu":
+                            base[...] = base + 1 if base.dtype.kind == "u" else -7
+                        elif base.dtype.kind == "b":
+                            base[...] = ~base
+                    except (ValueError, TypeError):
+                        pass  # a read-only array cannot be scribbled over
+
+        def read_obs(name, sp, k, H, w, where, extra=None):
+            inputs, cov = self._fresh_inputs(aa, worlds[k], name, sp["args"], sp.get("signal_scale"))
+            H = np.asarray(H)
+            rd = {"scheme": name, "source": worlds[k]["source"], "symmetric": True, "where": where,
+                  "decade": case.get("decade"), "shape": list(H.shape), "weights": qlist(np.asarray(w)),
+                  "matrix": qmat(H), "inputs": inputs}
+            if cov is not None:
+                rd["cov"] = cov
+            if extra:
+                rd.update(extra)
+            return rd
+
+        try:
+            for k in range(len(worlds)):
+                build(k)
+            for si, st in enumerate(case["steps"]):
+                op = st["op"]
+                if op == "eval":
+                    k = st["world"]
+                    sp = pool[st["spec"]]
+                    name = sp["scheme"]
+                    reg = inst(st["spec"], fresh=st.get("inst") == "fresh")
+                    o = objs[k]
+                    via = st.get("via", "from")
+                    extra = None
+                    w = None
+                    if st.get("weights_first"):
+                        w = reg.regularization_weights_from(linear_obj=o)
+                        w_keep = w
+                        w = np.array(w, dtype=float)
+                    got = []
+                    if via == "from":
+                        H = reg.regularization_matrix_from(linear_obj=o)
+                        got = [H]
+                    elif via == "obj":
+                        o.regularization = reg
+                        H = o.regularization_matrix
+                        got = [H]
+                    elif via == "mock_inv":
+                        o.regularization = reg
+                        e = int(st.get("extra", 1))
+                        ex = aa.m.MockLinearObj(parameters=e, regularization=None)
+                        lo = [ex, o] if st.get("extra_first") else [o, ex]
+                        inv = aa.m.MockInversion(linear_obj_list=lo, settings=settings, preloads=preloads)
+                        if st.get("reduced_first"):
+                            R = inv.regularization_matrix_reduced
+                            full = inv.regularization_matrix
+                        else:
+                            full = inv.regularization_matrix
+                            R = inv.regularization_matrix_reduced
+                        n = int(o.params)
+                        off = e if st.get("extra_first") else 0
+                        full_a = np.asarray(full)
+                        H = full_a[off:off + n, off:off + n]
+                        rest = full_a.copy()
+                        rest[off:off + n, off:off + n] = 0
+                        extra = {"placement": {"size": list(full_a.shape), "expected_size": n + e,
+                                               "outside_nonzero": int(np.count_nonzero(rest)),
+                                               "reduced_is_block": bool(np.asarray(R).shape == H.shape and
+                                                                        np.array_equal(np.asarray(R), H))}}
+                        got = [full, R]
+                    elif via == "real_inv":
+                        o.regularization = reg
+                        mask = o.mapper_grids.mask
+                        npx = len(worlds[k]["adapt"])
+                        ds = aa.DatasetInterface(data=aa.Array2D(values=np.arange(1.0, npx + 1.0), mask=mask),
+                                                 noise_map=aa.Array2D(values=np.ones(npx), mask=mask), convolver=None)
+                        rinv = aa.Inversion(dataset=ds, linear_obj_list=[o], settings=settings, preloads=preloads)
+                        H = rinv.regularization_matrix
+                        got = [H]
+                    else:
+                        raise ValueError(via)
+                    Hc = np.array(H, dtype=float)  # the observation is taken now
+                    if w is None:
+                        w_keep = reg.regularization_weights_from(linear_obj=o)
+                        w = np.array(w_keep, dtype=float)
+                    where = (f"step {si}: {name}{[str(a) for a in sp['args']]} on world {k} via {via}"
+                             f"{' (pool instance)' if st.get('inst') != 'fresh' else ''}")
+                    rd = read_obs(name, sp, k, Hc, w, where, extra)
+                    reads.append(rd)
+                    last = got + [w_keep]
+                    if st.get("hold"):
+                        held.append((got[0] if via in ("from", "obj", "real_inv") else None, H, w_keep, rd))
+                elif op == "recheck":
+                    # arrays handed out earlier must still hold what they held then
+                    for g, H, w_keep, rd in held:
+                        rd2 = dict(rd)
+                        rd2["where"] = rd["where"] + f" — array re-read at step {si}"
+                        rd2["matrix"] = qmat(np.asarray(H))
+                        rd2["weights"] = qlist(np.asarray(w_keep))
+                        reads.append(rd2)
+                    held = []
+                elif op == "scribble":
+                    scribble(last)
+                    last = []
+                    held = []
+                elif op == "scribble_all":
+                    # everything the API returned or accepted for every world, then every world is rebuilt from
+                    # fresh, equal inputs
+                    scribble(last)
+                    last, held = [], []
+                    for k, o in enumerate(objs):
+                        arrs = list((keeps[k] or {}).values())
+                        try:
+                            arrs.append(o.pixel_signals_from(signal_scale=1.0))
+                        except Exception:
+                            pass
+                        try:
+                            nb = o.source_plane_mesh_grid.neighbors
+                            arrs += [nb, nb.sizes]
+                        except Exception:
+                            pass
+                        try:
+                            arrs.append(np.asarray(o.source_plane_mesh_grid))
+                        except Exception:
+                            pass
+                        scribble([a for a in arrs if isinstance(a, np.ndarray)])
+                    if st.get("new_instances", True):
+                        insts.clear()
+                    for k in range(len(worlds)):
+                        build(k)
+                elif op == "rebuild":
+                    build(st["world"])
+                elif op == "edit_adapt":
+                    k = st["world"]
+                    wd = worlds[k]
+                    if wd["source"] == "mock":
+                        sig = keeps[k]["signals"]
+                        sig[st["index"]] = fl(st["value"])
+                        wd["mock"]["signals"][st["index"]] = st["value"]
+                    else:
+                        v = Fraction(st["value"])
+                        objs[k].adapt_data[st["index"]] = int(v) if wd.get("int_inputs") and v.denominator == 1 else float(v)
+                        wd["adapt"][st["index"]] = st["value"]
+                elif op == "edit_attr":
+                    sp = pool[st["spec"]]
+                    if st["attr"] == "signal_scale":
+                        sp["signal_scale"] = st["value"]
+                    else:
+                        sp["args"][st["attr"]] = st["value"]
+                    if st["spec"] in insts:
+                        set_attrs(insts[st["spec"]], sp)
+                elif op == "copy_obj":
+                    objs[st["world"]] = copy.copy(objs[st["world"]])
+                elif op == "decoy":
+                    o = objs[st["world"]]
+                    for f in (lambda: o.mapping_matrix, lambda: o.pix_indexes_for_sub_slim_index,
+                              lambda: o.pix_weights_for_sub_slim_index, lambda: o.source_plane_mesh_grid.neighbors,
+                              lambda: o.pixel_signals_from(signal_scale=2.0), lambda: o.params,
+                              lambda: o.pix_sub_weights_split_cross, lambda: o.source_plane_mesh_grid.split_cross,
+                              lambda: o.unique_mappings, lambda: o.edge_pixel_list):
+                        try:
+                            f()
+                        except Exception:
+                            pass
+                elif op == "fault":
+                    self._faults(aa, objs, insts, pool, inst)
+                elif op == "config":
+                    sec = conf.instance["general"][st["section"]]
+                    conf_saved.append((sec, st["key"], st["key"] in sec, sec[st["key"]] if st["key"] in sec else None))
+                    sec[st["key"]] = fl(st["value"]) if st.get("float") else st["value"]
+                else:
+                    raise ValueError(op)
+        finally:
+            for sec, key, had, old in reversed(conf_saved):
+                if had:
+                    sec[key] = old
+                else:
+                    try:
+                        del sec[key]
+                    except Exception:
+                        pass
+        return {"reads": reads, "inputs": {}}
+
+    def _faults(self, aa, objs, insts, pool, inst):
+        """every scheme instance is evaluated on broken linear objects, a raising user scheme is read through every
+        object and an inversion — all exceptions are expected and swallowed; nothing may be left behind"""
+        broken = [aa.m.MockMapper(source_plane_mesh_grid=None, pixel_signals=None, parameters=3)]
+        base = {"params": 3, "neighbors": [[1, -1], [0, 2], [1, -1]], "sizes": [1, 2, 1],
+                "points": [["0", "0"], ["1", "0"], ["0", "1"]]}
+        broken.append(_mock_mapper(aa, {**base, "signals": ["1"]}))
+        broken.append(_mock_mapper(aa, {**base, "neighbors": [[1, -1], [0, 9], [1, -1]], "signals": ["1", "1/2", "0"]}))
+        for i in range(len(pool)):
+            try:
+                r = inst(i)
+            except Exception:
+                continue
+            for b in broken:
+                for f in (r.regularization_weights_from, r.regularization_matrix_from):
+                    try:
+                        f(linear_obj=b)
+                    except Exception:
+                        pass
+
+        class _Boom:
+            def regularization_matrix_from(self, linear_obj):
+                raise RuntimeError("user scheme fails")
+
+            def regularization_weights_from(self, linear_obj):
+                raise RuntimeError("user scheme fails")
+
+        for o in objs:
+            old = o.regularization
+            o.regularization = _Boom()
+            for f in (lambda: o.regularization_matrix,
+                      lambda: aa.m.MockInversion(linear_obj_list=[o]).regularization_matrix,
+                      lambda: aa.m.MockInversion(linear_obj_list=[o]).regularization_matrix_reduced):
+                try:
+                    f()
+                except Exception:
+                    pass
+            o.regularization = old
+
+    def _oracle_reads(self, case, obs):
+        for k, rd in enumerate(obs["reads"]):
+            pc = {"kind": "scheme", "source": rd["source"], "scheme": rd["scheme"], "symmetric": True,
+                  "decade": rd.get("decade"), "light": True}
+            try:
+                ok, d = self._oracle_scheme(pc, rd)
+            except Skip:
+                continue
+            if not ok:
+                return False, f"read {k} ({rd['where']}), judged as a fresh object in that state: {d}"
+            pl = rd.get("placement")
+            if pl:
+                if pl["size"] != [pl["expected_size"]] * 2:
+                    return False, f"read {k} ({rd['where']}): assembled matrix has shape {pl['size']}"
+                if pl["outside_nonzero"]:
+                    return False, f"read {k} ({rd['where']}): non-zero entries outside the object's block"
+                if not pl["reduced_is_block"]:
+                    return False, f"read {k} ({rd['where']}): regularization_matrix_reduced is not the object's block"
+        return True, ""
+
+    # ------------------------------------------------------------------ mid / large sizes (kind "large")
+    # Cases are recipes (sizes + a seed): replays and evidence samples stay small.  The observation carries numpy
+    # arrays; the model is not asked (model_requests -> []), the vectorised oracle alone judges them.
+    LARGE_DENSE_MAX = 4100   # parameters of a dense matrix
+    LARGE_KERNEL_MAX = 450   # the kernel covariance loop is quadratic pure Python
+
+    @staticmethod
+    def _large_points(case):
+        t, seed = case["t"], case["seed"]
+        r = np.random.default_rng(seed)
+        L = int(math.ceil(math.sqrt(t * 1.3))) + 1
+        cells = r.choice(L * L, size=t, replace=False)
+        y, x = np.divmod(cells, L)
+        jy, jx = r.integers(-5, 6, t), r.integers(-5, 6, t)
+        ay, ax = [(1, 1), (1, 2), (2, 1), (3, 2)][seed % 4]
+        oy, ox = (seed // 4) % 81 - 40, (seed // 324) % 81 - 40
+        return np.stack([(16 * y + jy) * ay / 64.0 + oy / 8.0, (16 * x + jx) * ax / 64.0 + ox / 8.0], 1)
+
+    def _large_mock(self, case):
+        """ring + random chords (or a star) with dyadic signals, lattice points and split-cross tables"""
+        import random as _random
+
+        t, seed = case["t"], case["seed"]
+        r = np.random.default_rng(seed + 1)
+        if case.get("graph") == "star":
+            a = np.zeros(t - 1, dtype=int)
+            b = np.arange(1, t)
+        else:
+            a = np.arange(t)
+            b = (a + 1) % t
+            if t == 2:
+                a, b = a[:1], b[:1]
+            m = t // 3
+            ca, cb = r.integers(0, t, m), r.integers(0, t, m)
+            ok = (ca != cb) & ((ca - cb) % t != 1) & ((cb - ca) % t != 1)
+            ca, cb = ca[ok], cb[ok]
+            lo, hi = np.minimum(ca, cb), np.maximum(ca, cb)
+            ch = np.unique(np.stack([lo, hi], 1), axis=0) if len(lo) else np.zeros((0, 2), dtype=int)
+            a, b = np.concatenate([a, ch[:, 0]]), np.concatenate([b, ch[:, 1]])
+        pa, pb = np.minimum(a, b), np.maximum(a, b)
+        pairs = np.unique(np.stack([pa, pb], 1), axis=0)
+        deg = np.bincount(np.concatenate([pairs[:, 0], pairs[:, 1]]), minlength=t)
+        width = int(deg.max()) if t else 1
+        nb = -np.ones((t, max(width, 1)), dtype=int)
+        fill = np.zeros(t, dtype=int)
+        for x, y in pairs:  # ascending neighbour order per row
+            nb[x, fill[x]] = y
+            fill[x] += 1
+            nb[y, fill[y]] = x
+            fill[y] += 1
+        sig = r.integers(0, 17, t) / 16.0
+        sig[int(r.integers(0, t))] = 1.0
+        if case.get("lattice"):
+            lh, lw, sp_, asp = case["lattice"]
+            yy, xx = np.meshgrid(np.arange(lh) * fl(sp_) * fl(asp), np.arange(lw) * fl(sp_), indexing="ij")
+            pts = np.stack([yy.ravel(), xx.ravel()], 1) + np.array([fl(case["offset"][0]), fl(case["offset"][1])])
+        else:
+            pts = self._large_points(case)
+        out = {"pairs": pairs, "neighbors": nb, "sizes": deg.astype(int), "signals": sig, "points": pts}
+        if case["scheme"] in SPLIT_SCHEMES:
+            sp = self._mock_split(_random.Random(seed + 2), t, width=4)
+            out["split"] = {"mappings": np.array(sp["mappings"], dtype=int), "sizes": np.array(sp["sizes"], dtype=int),
+                            "weights": np.array([[fl(v) for v in r_] for r_ in sp["weights"]])}
+        return out
+
+    def _impl_large(self, aa, case):
+        from autoarray.inversion.pixelization.mappers.abstract import PixSubWeights
+
+        rec = case["recipe"]
+        if rec == "neighbors":
+            from autoarray.inversion.pixelization.mesh import mesh_util
+
+            h, w = case["shape"]
+            nb, sz = mesh_util.rectangular_neighbors_from(shape_native=(h, w))
+            obs = {"nb": np.array(nb), "sizes": np.array(sz), "inputs": {}}
+            if case.get("through_mesh"):
+                grid = aa.Grid2D.uniform(shape_native=(3, 3), pixel_scales=1.0)
+                mesh = aa.Mesh2DRectangular.overlay_grid(grid=grid, shape_native=(h, w))
+                obs["mesh_nb"] = np.array(mesh.neighbors)
+                obs["mesh_sizes"] = np.array(mesh.neighbors.sizes)
+                obs["mesh_pixels"] = int(mesh.pixels)
+            return obs
+        if rec == "signals":
+            world = self._large_signal_world(case)
+            mapper = _real_mapper(aa, world)
+            sc = fl(case["signal_scale"])
+            sig = mapper.pixel_signals_from(signal_scale=sc)
+            ad = mapper.adapt_data
+            return {"signals": np.array(sig, dtype=float), "pixels": int(mapper.pixels),
+                    "pw": np.array(mapper.pix_weights_for_sub_slim_index, dtype=float),
+                    "pi": np.array(mapper.pix_indexes_for_sub_slim_index, dtype=int),
+                    "ps": np.array(mapper.pix_sizes_for_sub_slim_index, dtype=int),
+                    "sfs": np.array(mapper.over_sampler.slim_for_sub_slim, dtype=int),
+                    "adapt": np.array(ad.array if hasattr(ad, "array") else ad, dtype=float), "inputs": {}}
+        if rec == "inversion":
+            objs, spec = [], self._large_inversion_spec(case)
+            for o in spec:
+                if o["scheme"] is None:
+                    objs.append(aa.m.MockLinearObj(parameters=o["params"], regularization=None))
+                else:
+                    mesh = _MeshGrid(aa, np.zeros((o["params"], 2)), o["neighbors"], o["sizes"])
+                    reg = _make_scheme(aa, o["scheme"], o["args"], None, "float")
+                    objs.append(aa.m.MockMapper(source_plane_mesh_grid=mesh, regularization=reg,
+                                                pixel_signals=np.ones(o["params"])))
+            inv = aa.m.MockInversion(linear_obj_list=objs)
+            if case.get("reduced_first"):
+                R = inv.regularization_matrix_reduced
+                nr = inv.no_regularization_index_list
+                H = inv.regularization_matrix
+            else:
+                nr = inv.no_regularization_index_list
+                H = inv.regularization_matrix
+                R = inv.regularization_matrix_reduced
+            return {"H": np.array(H, dtype=float), "R": np.array(R, dtype=float), "no_reg": np.array(nr, dtype=int),
+                    "total": int(inv.total_params), "inputs": {}}
+        # ---- one scheme on one big linear object
+        name = case["scheme"]
+        args = list(case["args"])
+        obs = {"inputs": {}}
+        if case["source"] == "mock":
+            mk = self._large_mock(case)
+            mesh = _MeshGrid(aa, mk["points"], mk["neighbors"], mk["sizes"])
+            psw = None
+            if "split" in mk:
+                psw = PixSubWeights(mappings=mk["split"]["mappings"].copy(), sizes=mk["split"]["sizes"].copy(),
+                                    weights=mk["split"]["weights"].copy())
+            mapper = aa.m.MockMapper(source_plane_mesh_grid=mesh, pixel_signals=mk["signals"].copy(),
+                                     pix_sub_weights_split_cross=psw)
+        else:
+            world = dict(case)
+            if case["source"] == "delaunay":
+                P = self._large_points(case)
+                world["points"] = [[q(a), q(b)] for a, b in P.tolist()]
+            try:
+                mapper = _real_mapper(aa, world)
+            except Exception as e:
+                if "qhull" in str(e).lower() or "Qhull" in type(e).__name__:
+                    raise Skip("qhull")
+                raise
+            if name in SIGNAL_SCHEMES:
+                obs["mapper"] = _mapper_signal_tables(mapper, case.get("signal_scale") or "1")
+                obs["signals"] = np.array(mapper.pixel_signals_from(signal_scale=fl(case.get("signal_scale") or "1")),
+                                          dtype=float)
+            if case["source"] == "delaunay":
+                obs["simplices"] = np.array(mapper.source_plane_mesh_grid.delaunay.simplices, dtype=int)
+            if name in SPLIT_SCHEMES:
+                sp = mapper.pix_sub_weights_split_cross
+                obs["split"] = {"mappings": np.array(sp.mappings, dtype=int), "sizes": np.array(sp.sizes, dtype=int),
+                                "weights": np.array(sp.weights, dtype=float)}
+        P = np.array(mapper.source_plane_mesh_grid, dtype=float).reshape(-1, 2)
+        if name in KERNEL_SCHEMES:
+            # scale = ratio x the smallest separation of the mesh points (10 significant bits)
+            d2 = ((P[:, None, :] - P[None, :, :]) ** 2).sum(-1)
+            dmin = math.sqrt(d2[d2 > 0].min())
+            m_, e_ = math.frexp(fl(args[1]) * dmin)
+            args[1] = q(math.ldexp(round(m_ * 1024), e_ - 10))
+        reg = _make_scheme(aa, name, args, case.get("signal_scale"), case.get("arg_type", "float"))
+        if case.get("weights_first"):
+            w = reg.regularization_weights_from(linear_obj=mapper)
+            H = reg.regularization_matrix_from(linear_obj=mapper)
+        else:
+            H = reg.regularization_matrix_from(linear_obj=mapper)
+            w = reg.regularization_weights_from(linear_obj=mapper)
+        nbr = mapper.source_plane_mesh_grid.neighbors
+        obs.update({"n": int(mapper.params), "H": np.array(H, dtype=float), "w": np.array(w, dtype=float),
+                    "nb": np.array(nbr, dtype=int), "sizes": np.array(nbr.sizes, dtype=int), "points": P,
+                    "args": args})
+        return obs
+
+    def _large_signal_world(self, case):
+        h, w = case["frame"]
+        r = np.random.default_rng(case["seed"])
+        m = np.zeros((h, w), dtype=bool)
+        nmask = h * w - case["t"]
+        if nmask > 0:
+            m.ravel()[r.choice(h * w, size=nmask, replace=False)] = True
+        adapt = r.integers(1, 33, case["t"]) / 4.0
+        world = {"source": case["source"], "mask": mask_json(m), "scales": case["scales"], "origin": case["origin"],
+                 "sub": case["sub"], "adapt": [q(v) for v in adapt.tolist()], "route": case.get("route", "direct")}
+        if case["source"] == "rect":
+            world["mesh_shape"] = case["mesh_shape"]
+        else:
+            r2 = __import__("random").Random(case["seed"])
+            world["points"] = self._delaunay_points(r2, case["vertices"])
+        return world
+
+    def _large_inversion_spec(self, case):
+        r = __import__("random").Random(case["seed"])
+        out = []
+        for p in case["sizes"]:
+            name = r.choice(["Constant", "Zeroth", "ConstantZeroth", None, None])
+            o = {"params": p, "scheme": name}
+            if name is not None:
+                if p == 1:
+                    nb, sz = [[-1]], [0]
+                else:  # a path
+                    nb = [[j for j in (i - 1, i + 1) if 0 <= j < p] for i in range(p)]
+                    sz = [len(x) for x in nb]
+                    nb = [x + [-1] * (2 - len(x)) for x in nb]
+                o.update({"neighbors": nb, "sizes": sz,
+                          "args": [q(Fraction(r.randint(1, 16), 4)) for _ in range(2 if name == "ConstantZeroth" else 1)]})
+            out.append(o)
+        return out
+
+    # ---- the vectorised oracle
+    @staticmethod
+    def _rect_table(h, w):
+        k = np.arange(h * w)
+        y, x = np.divmod(k, w)
+        cols = [np.where(y > 0, k - w, -1), np.where(x > 0, k - 1, -1), np.where(x + 1 < w, k + 1, -1),
+                np.where(y + 1 < h, k + w, -1)]
+        T = np.stack(cols, 1)
+        sizes = (T >= 0).sum(1)
+        # valid entries first, in ascending order, padded with -1
+        key = np.where(T >= 0, T, np.iinfo(np.int64).max)
+        order = np.argsort(key, axis=1, kind="stable")
+        T = np.take_along_axis(T, order, 1)
+        return T, sizes
+
+    @staticmethod
+    def _pairs_of_table(nb, sizes):
+        """(directed pairs (i, j) of the table, problem) — vectorised"""
+        n, wdt = nb.shape
+        valid = np.arange(wdt)[None, :] < sizes[:, None]
+        i = np.repeat(np.arange(n), wdt).reshape(n, wdt)[valid]
+        j = nb[valid]
+        return i, j
+
+    def _oracle_large(self, case, obs):
+        if "err" in obs and "H" not in obs and "nb" not in obs and "signals" not in obs:
+            return False, f"implementation raised {obs.get('err')}: {obs.get('msg', '')}"
+        rec = case["recipe"]
+        if rec == "neighbors":
+            h, w = case["shape"]
+            T, S = self._rect_table(h, w)
+            for what, a, b in [("rectangular_neighbors_from", obs["nb"], obs["sizes"])] + (
+                    [("Mesh2DRectangular.neighbors", obs["mesh_nb"], obs["mesh_sizes"])] if "mesh_nb" in obs else []):
+                if a.shape != T.shape or b.shape != S.shape:
+                    return False, f"{what}: table shape {a.shape} / sizes {b.shape} for a {h} x {w} mesh"
+                bad = np.nonzero((a != T).any(1) | (b != S))[0]
+                if len(bad):
+                    k = int(bad[0])
+                    return False, (f"{what}: pixel {k} = ({k // w},{k % w}) of a {h} x {w} mesh has row {a[k].tolist()} size "
+                                   f"{int(b[k])}, expected {T[k].tolist()} (its 4-neighbours)")
+            if "mesh_pixels" in obs and obs["mesh_pixels"] != h * w:
+                return False, f"mesh.pixels = {obs['mesh_pixels']} for shape {h} x {w}"
+            return True, ""
+        if rec == "signals":
+            return self._oracle_large_signals(case, obs)
+        if rec == "inversion":
+            return self._oracle_large_inversion(case, obs)
+        return self._oracle_large_scheme(case, obs)
+
+    def _oracle_large_signals(self, case, obs, signals=None):
+        n = obs["pixels"]
+        pw, pi, ps, sfs, ad = obs["pw"], obs["pi"], obs["ps"], obs["sfs"], obs["adapt"]
+        wdt = pi.shape[1]
+        valid = np.arange(wdt)[None, :] < ps[:, None]
+        wgt = np.where((ps > 1)[:, None], pw, 1.0)
+        contrib = (ad[sfs][:, None] * wgt)[valid]
+        idx = pi[valid]
+        sig = np.zeros(n)
+        cnt = np.zeros(n)
+        np.add.at(sig, idx, contrib)
+        np.add.at(cnt, idx, 1.0)
+        mean = sig / np.where(cnt > 0, cnt, 1.0)
+        if not mean.max() > 0:
+            raise Skip("no signal")
+        e = (mean / mean.max()) ** fl(case["signal_scale"])
+        got = obs["signals"] if signals is None else signals
+        if got.shape != (n,):
+            return False, f"{got.shape} pixel signals for {n} pixels"
+        bad = np.nonzero(~(np.abs(got - e) <= 1e-10))[0]
+        if len(bad):
+            k = int(bad[0])
+            return False, f"pixel signal {k}: {got[k]!r}, expected {e[k]!r} ({n} pixels, {len(sfs)} sub-pixels)"
+        if got.min() < 0 or got.max() > 1 or got.max() != 1.0:
+            return False, f"pixel signals range [{got.min()!r}, {got.max()!r}]: not in [0, 1] with the brightest exactly 1"
+        return True, ""
+
+    def _oracle_large_inversion(self, case, obs):
+        spec = self._large_inversion_spec(case)
+        tot = sum(o["params"] for o in spec)
+        H = obs["H"]
+        if obs["total"] != tot or H.shape != (tot, tot):
+            return False, f"block matrix is {H.shape}, expected {tot} x {tot}"
+        E = np.zeros((tot, tot))
+        off = 0
+        noreg = []
+        for o in spec:
+            p = o["params"]
+            if o["scheme"] is None:
+                noreg += list(range(off, off + p))
+            else:
+                a = [fl(v) for v in o["args"]]
+                B = np.zeros((p, p))
+                if o["scheme"] in ("Constant", "ConstantZeroth"):
+                    i = np.arange(p - 1)
+                    B[i, i] += a[0] ** 2
+                    B[i + 1, i + 1] += a[0] ** 2
+                    B[i, i + 1] -= a[0] ** 2
+                    B[i + 1, i] -= a[0] ** 2
+                    B[np.arange(p), np.arange(p)] += RIDGE + (a[1] ** 2 if o["scheme"] == "ConstantZeroth" else 0.0)
+                else:
+                    B[np.arange(p), np.arange(p)] = a[0] ** 2
+                E[off:off + p, off:off + p] = B
+            off += p
+        tol = 1e-12 * max(1.0, np.abs(E).max())
+        bad = np.argwhere(~(np.abs(H - E) <= tol))
+        if len(bad):
+            i, j = (int(v) for v in bad[0])
+            return False, (f"assembled matrix entry ({i},{j}) = {H[i, j]!r}, expected {E[i, j]!r} "
+                           f"({len(spec)} objects, {tot} parameters)")
+        if obs["no_reg"].tolist() != noreg:
+            k = next((k for k, (a, b) in enumerate(zip(obs["no_reg"].tolist(), noreg)) if a != b),
+                     min(len(noreg), len(obs["no_reg"])))
+            return False, f"no_regularization_index_list differs from the unregularized parameter ranges at position {k}"
+        keep = np.setdiff1d(np.arange(tot), np.array(noreg, dtype=int))
+        R = H[np.ix_(keep, keep)]
+        if obs["R"].shape != R.shape or not np.array_equal(obs["R"], R):
+            return False, (f"regularization_matrix_reduced ({obs['R'].shape}) is not the matrix with the {len(noreg)} "
+                           f"unregularized rows/columns removed ({R.shape})")
+        return True, ""
+
+    def _oracle_large_scheme(self, case, obs):
+        name = case["scheme"]
+        src = case["source"]
+        n = obs["n"]
+        H, w, nb, sizes = obs["H"], obs["w"], obs["nb"], obs["sizes"]
+        args = [fl(a) for a in obs["args"]]
+        mk = self._large_mock(case) if src == "mock" else None
+        # ---- size = parameter count
+        want = case["t"] if src != "rect" else case["mesh_shape"][0] * case["mesh_shape"][1]
+        if n != want or H.shape != (n, n) or w.shape != (n,):
+            return False, f"{name}: {n} parameters, matrix {H.shape}, {w.shape} weights for {want} mesh pixels"
+        # ---- the mesh's neighbour table (independent statement)
+        if src == "rect":
+            T, S = self._rect_table(*case["mesh_shape"])
+            if nb.shape != T.shape or not np.array_equal(nb, T) or not np.array_equal(sizes, S):
+                return False, f"the neighbour table of the {case['mesh_shape']} mesh is not its 4-connectivity"
+            m0 = nb >= 0
+            i = np.repeat(np.arange(n), nb.shape[1]).reshape(nb.shape)[m0]
+            j = nb[m0]
+        else:
+            if nb.shape[0] != n or sizes.shape != (n,) or sizes.max(initial=0) > nb.shape[1]:
+                return False, "malformed neighbour table"
+            i, j = self._pairs_of_table(nb, sizes)
+            if len(j) and (j.min() < 0 or j.max() >= n):
+                return False, "neighbour table has an out-of-range index"
+            if src == "delaunay":
+                sx = obs["simplices"]
+                e = np.concatenate([sx[:, [0, 1]], sx[:, [1, 2]], sx[:, [0, 2]]])
+                e = np.unique(np.concatenate([e, e[:, ::-1]]), axis=0)
+            else:
+                e = np.concatenate([mk["pairs"], mk["pairs"][:, ::-1]])
+                e = e[np.lexsort((e[:, 1], e[:, 0]))]
+            got = np.stack([i, j], 1)
+            got = got[np.lexsort((got[:, 1], got[:, 0]))]
+            if got.shape != e.shape or not np.array_equal(got, e):
+                return False, ("the mesh's neighbour table is not the edge relation of the triangulation"
+                               if src == "delaunay" else "the neighbour table read back differs from the one given")
+        lo = i < j
+        pa, pb = i[lo], j[lo]
+        # ---- reported weights
+        sig = None
+        if name in SIGNAL_SCHEMES:
+            if src == "mock":
+                sig = mk["signals"]
+            else:
+                mp = obs["mapper"]
+                so = {"pixels": mp["pixels"], "pw": np.array([[fl(v) for v in r] for r in mp["pixel_weights"]]),
+                      "pi": np.array(mp["pix_indexes"], dtype=int), "ps": np.array(mp["pix_sizes"], dtype=int),
+                      "sfs": np.array(mp["slim_for_sub"], dtype=int), "adapt": np.array([fl(v) for v in mp["adapt_data"]])}
+                if so["pi"].ndim != 2:
+                    return False, "malformed mapper tables"
+                ok, d = self._oracle_large_signals({"signal_scale": case["signal_scale"]}, so, signals=obs["signals"])
+                if not ok:
+                    return False, d
+                sig = obs["signals"]
+        if name in ("AdaptiveBrightness", "AdaptiveBrightnessSplit"):
+            ew = (args[0] * sig + args[1] * (1 - sig)) ** 2
+        elif name == "BrightnessZeroth":
+            ew = args[0] * (1 - sig)
+        else:
+            ew = np.full(n, args[0])
+        if not (np.abs(w - ew) <= 1e-12 * np.maximum(1.0, np.abs(ew))).all():
+            k = int(np.nonzero(~(np.abs(w - ew) <= 1e-12 * np.maximum(1.0, np.abs(ew))))[0][0])
+            return False, f"{name}: reported weight {k} = {w[k]!r}, expected {ew[k]!r}"
+        if name in KERNEL_SCHEMES:
+            return self._oracle_large_kernel(case, obs, args)
+        # ---- the stated matrix, entry by entry
+        E = np.zeros((n, n))
+        dg = np.arange(n)
+        if name in ("Constant", "ConstantZeroth", "AdaptiveBrightness"):
+            g = np.full(len(pa), args[0] ** 2) if name != "AdaptiveBrightness" else w[pa] ** 2 + w[pb] ** 2
+            np.add.at(E, (pa, pa), g)
+            np.add.at(E, (pb, pb), g)
+            np.add.at(E, (pa, pb), -g)
+            np.add.at(E, (pb, pa), -g)
+            E[dg, dg] += RIDGE + (args[1] ** 2 if name == "ConstantZeroth" else 0.0)
+        elif name == "Zeroth":
+            E[dg, dg] = args[0] ** 2
+        elif name == "BrightnessZeroth":
+            E[dg, dg] = w ** 2
+        else:  # split-cross: rho I + sum_k omega^2 v_k v_k^T, v_k = e_{k//4} - sum_l w_kl e_{m_kl}
+            import scipy.sparse as sps
+
+            sp = obs["split"] if src != "mock" else mk["split"]
+            mp_, sz_, wt_ = sp["mappings"], sp["sizes"], sp["weights"]
+            if mp_.shape[0] != 4 * n:
+                return False, "split-cross tables do not have 4 rows per pixel"
+            valid = np.arange(mp_.shape[1])[None, :] < sz_[:, None]
+            rows = np.repeat(np.arange(4 * n), mp_.shape[1]).reshape(mp_.shape)[valid]
+            cols = mp_[valid]
+            if len(cols) and (cols.min() < 0 or cols.max() >= n):
+                return False, "a cross-point row is out of range"
+            V = sps.coo_matrix((-wt_[valid], (rows, cols)), shape=(4 * n, n)).tocsr() \
+                + sps.coo_matrix((np.ones(4 * n), (np.arange(4 * n), np.arange(4 * n) // 4)), shape=(4 * n, n)).tocsr()
+            om = (w if name == "AdaptiveBrightnessSplit" else np.full(n, args[0])) ** 2
+            E = np.asarray((V.T @ sps.diags(np.repeat(om, 4)) @ V).todense()) + RIDGE * np.eye(n)
+        tol = (1e-9 if name in SPLIT_SCHEMES else 1e-12) * max(np.abs(E).max(), 1e-300)
+        D = np.abs(H - E)
+        if not (D <= tol).all():
+            a, b = (int(v) for v in np.argwhere(~(D <= tol))[0])
+            x = np.ones(n)
+            return False, (f"{name} on {n} parameters: entry ({a},{b}) = {H[a, b]!r} but the stated quadratic form has "
+                           f"{E[a, b]!r} there; on the all-ones vector x^T H x = {float(x @ H @ x)!r}, stated "
+                           f"{float(x @ E @ x)!r}")
+        if not np.array_equal(H, H.T):
+            return False, f"{name} on {n} parameters: not symmetric"
+        if name in PD_SCHEMES and np.abs(H).max() <= RIDGE * 2 ** 40:
+            try:
+                np.linalg.cholesky(H)
+            except np.linalg.LinAlgError:
+                return False, f"{name} on {n} parameters: not positive definite (Cholesky fails)"
+        elif name not in PD_SCHEMES and (np.diag(H) < 0).any():
+            return False, f"{name} on {n} parameters: negative diagonal entry"
+        return True, ""
+
+    def _oracle_large_kernel(self, case, obs, args):
+        name = case["scheme"]
+        H, P = obs["H"], obs["points"]
+        n = len(P)
+        c, sc = args
+        d2 = ((P[:, None, :] - P[None, :, :]) ** 2).sum(-1)
+        C = (np.exp(-d2 / (2 * sc * sc)) if name == "GaussianKernel" else np.exp(-np.sqrt(d2) / sc)) + RIDGE * np.eye(n)
+        lam = np.linalg.eigvalsh(C)
+        cond = lam[-1] / lam[0] if lam[0] > 0 else float("inf")
+        if not (lam[0] > 0):
+            return False, f"{name}: the oracle's own covariance matrix is not positive definite (cond {cond:.2e})"
+        mx = np.abs(H).max()
+        asym = np.abs(H - H.T).max()
+        if not (asym <= 1e-4 * mx):
+            return False, f"{name} on {n} mesh pixels: not symmetric (max |H - H^T| = {asym:.3e}, max |H| = {mx:.3e})"
+        ev = np.linalg.eigvalsh(0.5 * (H + H.T))
+        e_min = c / lam[-1]
+        # H = c inv(C): its smallest eigenvalue is c / lambda_max(C), a well-conditioned quantity even when C is not
+        # (np.linalg.inv solves (C + E) X = I with |E| ~ n eps |C|, far below the 1e-8 ridge)
+        if not (0.9 * e_min <= ev[0] <= 1.1 * e_min):
+            return False, (f"{name} on {n} mesh pixels (scale {sc!r}, cond {cond:.2e}): smallest eigenvalue of the "
+                           f"regularization matrix is {ev[0]:.6e}, expected coefficient / lambda_max(covariance) = "
+                           f"{e_min:.6e}" + (" — not positive definite" if ev[0] <= 0 else ""))
+        if cond <= COND_ORACLE_MAX:
+            res = np.abs(H @ C / c - np.eye(n)).max()
+            if res > 1e-6:
+                return False, f"{name}: H·C/coefficient differs from the identity by {res:.3e} (cond {cond:.2e})"
+        return True, ""
+
+    # ------------------------------------------------------------------ round 5/6 streams: generation
+    DEC_K = [-45, -40, -33, -27, -20, -14, -8, 8, 14, 20, 27, 33, 40, 45]
+
+    @staticmethod
+    def _scaled(vals, k):
+        f = Fraction(2) ** k
+        return [q(Fraction(v) * f) for v in vals]
+
+    def _gen_decades(self, rng, quick):
+        """R5-A / R5-E: ordinary cases with one ingredient, or the whole world, scaled by 2^k (exact in doubles)"""
+        nonkernel = RATIONAL_SCHEMES + SPLIT_SCHEMES
+        # (a) coefficients of a scheme on a mock object: all of them, or one only
+        for _ in range(70 if quick else 500):
+            name = rng.choice(nonkernel)
+            n = rng.randint(2, 7)
+            mock = self._mock_obj(rng, n, symmetric=True, with_split=name in SPLIT_SCHEMES, multi=rng.random() < 0.2)
+            args, ss = self._scheme_args(rng, name)
+            r = rng.random()
+            if r < 0.25:  # extreme magnitudes: the squares (fourth powers for the adaptive schemes) stay representable
+                lim = 110 if name in SIGNAL_SCHEMES else 400
+                k = rng.choice([-1, 1]) * rng.randint(lim // 2, lim)
+                what = "xcoef"
+            else:
+                k = rng.choice(self.DEC_K)
+                what = "coef"
+            if len(args) == 2 and rng.random() < 0.4:
+                i = rng.randrange(2)
+                args[i] = self._scaled([args[i]], k)[0]
+                what += "1"
+            else:
+                args = self._scaled(args, k)
+            yield {"tag": f"decade_{what}_{name}", "kind": "scheme", "source": "mock", "scheme": name, "args": args,
+                   "signal_scale": ss, "mock": mock, "symmetric": True, "decade": k}
+        # (b) arbitrary (non-dyadic) doubles as coefficients, at a decade
+        for _ in range(20 if quick else 150):
+            name = rng.choice(nonkernel)
+            n = rng.randint(2, 6)
+            mock = self._mock_obj(rng, n, symmetric=True, with_split=name in SPLIT_SCHEMES)
+            args, ss = self._scheme_args(rng, name)
+            k = rng.choice([0, 0, 0] + self.DEC_K)
+            args = [q(Fraction(rng.uniform(0.05, 9.0)) * Fraction(2) ** k) for _ in args]
+            yield {"tag": f"decade_general_{name}", "kind": "scheme", "source": "mock", "scheme": name, "args": args,
+                   "signal_scale": ss, "mock": mock, "symmetric": True, "decade": k}
+        # (c) kernel schemes: mesh points AND kernel scale at a decade / far from the origin (the matrix is invariant)
+        for _ in range(24 if quick else 160):
+            name = rng.choice(KERNEL_SCHEMES)
+            n = rng.randint(2, 8)
+            mock = self._mock_obj(rng, n, symmetric=True)
+            mock.pop("int_inputs", None)
+            args, ss = self._scheme_args(rng, name)
+            r = rng.random()
+            if r < 0.6:
+                k = rng.choice(self.DEC_K) if rng.random() < 0.7 else rng.choice([-1, 1]) * rng.randint(100, 400)
+                mock["points"] = [self._scaled(pt, k) for pt in mock["points"]]
+                what = "pts"
+            else:
+                k = 0
+                off = [Fraction(rng.choice([-1, 1]) * 2 ** rng.randint(12, 24)) * rng.randint(1, 7) for _ in range(2)]
+                mock["points"] = [[q(Fraction(a) + off[0]), q(Fraction(b) + off[1])] for a, b in mock["points"]]
+                what = "far"
+            kc = rng.choice([0] + self.DEC_K)
+            args[0] = self._scaled([args[0]], kc)[0]
+            yield {"tag": f"decade_{what}_{name}", "kind": "scheme", "source": "mock", "scheme": name, "args": args,
+                   "signal_scale": ss, "mock": mock, "symmetric": True, "decade": kc or k or 1}
+        # (d) real mappers: the whole geometry (pixel scales, origin, vertices) at a decade, origins far from zero,
+        #     the adapt image at a decade.  Geometry stays within 2^-20 .. 2^16: `Mesh2DRectangular.overlay_grid`
+        #     pads the mesh by an absolute 1e-8 (documented), which is the resolution limit of a rectangular mapper
+        for _ in range(20 if quick else 140):
+            frame = self._data_frame(rng, big=True)
+            frame.pop("int_inputs", None)
+            what = rng.choice(["geom", "geom", "far", "adapt", "adapt"])
+            rect = rng.random() < 0.5
+            pts = None if rect else self._delaunay_points(rng, rng.randint(4, 9))
+            if what == "geom":
+                k = rng.choice([-20, -16, -12, -7, 7, 12, 16])
+                frame["scales"] = self._scaled(frame["scales"], k)
+                frame["origin"] = self._scaled(frame["origin"], k)
+                if pts:
+                    pts = [self._scaled(pt, k) for pt in pts]
+            elif what == "far":
+                k = 0
+                off = [Fraction(rng.choice([-1, 1]) * 2 ** rng.randint(10, 18)) * rng.randint(1, 5) for _ in range(2)]
+                frame["origin"] = [q(Fraction(frame["origin"][0]) + off[0]), q(Fraction(frame["origin"][1]) + off[1])]
+                if pts:
+                    pts = [[q(Fraction(a) + off[0]), q(Fraction(b) + off[1])] for a, b in pts]
+            else:
+                k = rng.choice(self.DEC_K) if rng.random() < 0.6 else rng.choice([-1, 1]) * rng.randint(100, 480)
+                frame["adapt"] = self._scaled(frame["adapt"], k)
+            names = (RATIONAL_SCHEMES if rect else RATIONAL_SCHEMES + SPLIT_SCHEMES) + KERNEL_SCHEMES
+            if what == "adapt":
+                names = [x for x in names if x in SIGNAL_SCHEMES]
+            for name in rng.sample(names, 2):
+                args, ss = self._scheme_args(rng, name)
+                c = {"tag": f"decade_{what}_{'rect' if rect else 'delaunay'}_{name}", "kind": "scheme",
+                     "source": "rect" if rect else "delaunay", "scheme": name, "args": args, "signal_scale": ss,
+                     **frame}  # (coefficients of order one: the ordinary comparison; the relative one would ask
+                     #            more of 1 - signal, a cancellation, than doubles give)
+                if rect:
+                    c["mesh_shape"] = [rng.randint(3, 5), rng.randint(3, 5)]
+                else:
+                    c["points"] = pts
+                yield c
+        # (e) block assembly with the objects' coefficients at different decades
+        for _ in range(16 if quick else 120):
+            objs = []
+            for _ in range(rng.randint(2, 4)):
+                if rng.random() < 0.3:
+                    objs.append({"type": "linear_obj", "params": rng.randint(1, 3)})
+                    continue
+                n = rng.randint(1, 4)
+                name = rng.choice(RATIONAL_SCHEMES + SPLIT_SCHEMES)
+                args, ss = self._scheme_args(rng, name)
+                args = self._scaled(args, rng.choice(self.DEC_K + [0]))
+                objs.append({"type": "mapper", "params": n, "scheme": name, "args": args, "signal_scale": ss,
+                             "mock": self._mock_obj(rng, n, True, name in SPLIT_SCHEMES)})
+            yield {"tag": "decade_blocks", "kind": "inversion", "objs": objs, "decade": 1,
+                   "preload": rng.choice(["absent", "correct"])}
+
+    def _gen_near(self, rng, quick):
+        """R5-A: nearly-uniform / nearly-equal / nearly-zero ingredients: relative differences 2^-20 .. 2^-40, far
+        outside the 1e-12 / 1e-10 comparison and inside numpy's isclose / allclose defaults"""
+        for _ in range(40 if quick else 300):
+            name = rng.choice(["AdaptiveBrightness", "AdaptiveBrightness", "BrightnessZeroth", "AdaptiveBrightnessSplit",
+                               "ConstantZeroth", "Constant", "Zeroth"])
+            n = rng.randint(2, 7)
+            mock = self._mock_obj(rng, n, symmetric=True, with_split=name in SPLIT_SCHEMES)
+            mock.pop("int_inputs", None)
+            args, ss = self._scheme_args(rng, name)
+            m = rng.choice([20, 24, 28, 33, 40])
+            eps = Fraction(1, 2 ** m)
+            what = rng.choice(["signals", "coefs", "small"]) if name in SIGNAL_SCHEMES else rng.choice(["coefs", "small"])
+            k = 0
+            if what == "signals":
+                # nearly uniform signals (brightest exactly 1), optionally around a small common level
+                base = rng.choice([Fraction(1), Fraction(1), Fraction(1, 2), Fraction(1, 2 ** 30)])
+                sig = [base * (1 - eps * rng.randint(0, 9)) for _ in range(n)]
+                sig[rng.randrange(n)] = Fraction(1)
+                mock["signals"] = qlist(sig)
+            elif what == "coefs":
+                if len(args) == 2:  # nearly equal coefficients (adaptive weights nearly uniform)
+                    args[1] = q(Fraction(args[0]) * (1 + eps * rng.choice([-3, -1, 1, 5])))
+                else:
+                    args[0] = q(Fraction(args[0]) * (1 + eps))
+            else:
+                # everything small: all weights / entries far below 1e-8, distinct relative to each other
+                k = -rng.randint(14, 44)
+                args = self._scaled(args, k)
+            yield {"tag": f"near_{what}_{name}", "kind": "scheme", "source": "mock", "scheme": name, "args": args,
+                   "signal_scale": ss, "mock": mock, "symmetric": True, "decade": k or 1}
+        # nearly uniform adapt images on real mappers (signals nearly equal), at several decades
+        for _ in range(12 if quick else 90):
+            frame = self._data_frame(rng, big=True)
+            frame.pop("int_inputs", None)
+            m = rng.choice([16, 20, 24])
+            lvl = Fraction(2) ** rng.choice([-40, -20, 0, 0, 20, 40]) * rng.randint(1, 7)
+            frame["adapt"] = [q(lvl * (1 + Fraction(rng.randint(0, 15), 2 ** m))) for _ in frame["adapt"]]
+            rect = rng.random() < 0.5
+            name = rng.choice(["AdaptiveBrightness", "BrightnessZeroth"] + ([] if rect else ["AdaptiveBrightnessSplit"]))
+            args, ss = self._scheme_args(rng, name)
+            c = {"tag": f"near_adapt_{'rect' if rect else 'delaunay'}_{name}", "kind": "scheme",
+                 "source": "rect" if rect else "delaunay", "scheme": name, "args": args, "signal_scale": ss,
+                 **frame}
+            if rect:
+                c["mesh_shape"] = [rng.randint(3, 5), rng.randint(3, 5)]
+            else:
+                c["points"] = self._delaunay_points(rng, rng.randint(4, 9))
+            yield c
+            yield {"tag": "near_adapt_signals", "kind": "signals", "source": c["source"],
+                   "signal_scale": q(rng.choice([1, 2, Fraction(1, 2)])),
+                   **{k: v for k, v in c.items() if k not in ("tag", "kind", "scheme", "args", "signal_scale")}}
+
+    LAYOUTS = ["F", "T", "strided", "rev", "offset", "readonly"]
+
+    def _gen_layout(self, rng, quick):
+        """R5-C: equal-valued inputs in other memory layouts / containers / dtypes"""
+        for _ in range(60 if quick else 400):
+            name = rng.choice(ALL_SCHEMES)
+            n = rng.randint(2, 7)
+            mock = self._mock_obj(rng, n, symmetric=True, with_split=name in SPLIT_SCHEMES, multi=rng.random() < 0.2)
+            args, ss = self._scheme_args(rng, name)
+            lay = {}
+            for key in rng.sample(["points", "neighbors", "sizes", "signals"], rng.randint(1, 3)):
+                # (float32 mesh points are not offered to the kernel schemes: numpy then evaluates the kernel in
+                #  single precision, a matter of its promotion rules and not of the property)
+                lay[key] = rng.choice(self.LAYOUTS + (["int32", "int16"] if key in ("neighbors", "sizes") else [])
+                                      + (["float32"] if key == "signals" or
+                                         (key == "points" and name not in KERNEL_SCHEMES) else []))
+            c = {"tag": f"layout_mock_{name}", "kind": "scheme", "source": "mock", "scheme": name, "args": args,
+                 "signal_scale": ss, "mock": mock, "symmetric": True, "lay": lay}
+            if lay.get("signals") == "float32" and name in SIGNAL_SCHEMES:
+                mock.pop("int_inputs", None)
+                c["f32"] = True
+            if rng.random() < 0.15 and name not in KERNEL_SCHEMES:
+                c["arg_type"] = "0d"
+            yield c
+        for _ in range(40 if quick else 300):
+            frame = self._data_frame(rng, big=True)
+            rect = rng.random() < 0.45
+            lay = {}
+            if rng.random() < 0.6:
+                lay["adapt"] = rng.choice(["native", "native_F", "list", "readonly", "strided", "float32", "array2d"])
+                if lay["adapt"] != "list":
+                    frame.pop("int_inputs", None)
+            if rng.random() < 0.5:
+                lay["mask"] = rng.choice(["from_mask", "from_mask", "F", "strided", "readonly", "list"])
+            if rng.random() < 0.3:
+                frame["origin"] = ["0", "0"]  # an explicit origin of exactly (0.0, 0.0)
+            names = (RATIONAL_SCHEMES if rect else RATIONAL_SCHEMES + SPLIT_SCHEMES) + KERNEL_SCHEMES
+            name = rng.choice(names)
+            args, ss = self._scheme_args(rng, name)
+            c = {"tag": f"layout_{'rect' if rect else 'delaunay'}_{name}", "kind": "scheme",
+                 "source": "rect" if rect else "delaunay", "scheme": name, "args": args, "signal_scale": ss, **frame}
+            if rect:
+                c["mesh_shape"] = [rng.randint(3, 5), rng.randint(3, 5)]
+            else:
+                c["points"] = self._delaunay_points(rng, rng.randint(4, 9))
+                c["container"] = "ndarray"
+                if rng.random() < 0.7:
+                    lay["points"] = rng.choice(self.LAYOUTS + ([] if name in KERNEL_SCHEMES else ["float32"]))
+            c["lay"] = lay
+            yield c
+            if rng.random() < 0.4:
+                yield {"tag": "layout_signals", "kind": "signals", "signal_scale": q(rng.choice([1, 2, Fraction(1, 2)])),
+                       **{k: v for k, v in c.items() if k not in ("tag", "kind", "scheme", "args", "signal_scale")}}
+        # the util functions on arrays in other layouts / dtypes
+        for _ in range(40 if quick else 300):
+            n = rng.randint(2, 6)
+            fn = rng.choice(["constant", "weighted", "constant_zeroth", "brightness_zeroth", "pixel_splitted",
+                             "reg_split_from"])
+            c = {"tag": f"layout_util_{fn}", "kind": "util", "fn": fn, "n": n}
+            if fn in ("reg_split_from", "pixel_splitted"):
+                c["split"] = self._mock_split(rng, n, width=rng.choice([3, 4, 5]))
+                c["weights"] = qlist([self._coef(rng) for _ in range(n)])
+                # reg_split_from edits its arguments in place: writable layouts only
+                c["lay"] = {key: rng.choice(["F", "T", "strided", "rev", "offset"])
+                            for key in rng.sample(["mappings", "sizes", "weights", "reg_weights"], 2)}
+            else:
+                nb, sizes = self._mock_graph(rng, n, symmetric=rng.random() < 0.5, multi=True)
+                c.update({"neighbors": nb, "sizes": sizes, "coefficient": q(self._coef(rng)),
+                          "coefficient_zeroth": q(self._coef(rng)),
+                          "weights": qlist([gen.dyadic(rng, -3, 3, 3) for _ in range(n)])})
+                c["lay"] = {key: rng.choice(self.LAYOUTS + (["int32", "int16"] if key != "weights" else []))
+                            for key in rng.sample(["neighbors", "sizes", "weights"], 2)}
+            yield c
+
+    def _gen_opts(self, rng, quick):
+        """R5-F: constructor / settings options (introspected) crossed pairwise, set-but-falsy values included"""
+        import inspect
+
+        aa = load_autoarray()
+        # (a) the schemes' own constructor arguments, pairwise, each over a value set with falsy members
+        vals = ["0", "0", "1/1048576", "3", "1048576"]
+        for name in RATIONAL_SCHEMES + SPLIT_SCHEMES:
+            params = [p for p in inspect.signature(getattr(aa.reg, name).__init__).parameters if p != "self"]
+            order = {"Constant": ["coefficient"], "Zeroth": ["coefficient"], "ConstantSplit": ["coefficient"],
+                     "ConstantZeroth": ["coefficient_neighbor", "coefficient_zeroth"],
+                     "BrightnessZeroth": ["coefficient", "signal_scale"],
+                     "AdaptiveBrightness": ["inner_coefficient", "outer_coefficient", "signal_scale"],
+                     "AdaptiveBrightnessSplit": ["inner_coefficient", "outer_coefficient", "signal_scale"]}[name]
+            if sorted(params) != sorted(order):
+                # the constructor gained / lost an argument: every argument the harness does not know keeps its
+                # default (reported through the ordinary cases); the known ones are still crossed
+                order = [p for p in order if p in params]
+            combos = []
+            for i in range(len(order)):
+                for j in range(i + 1, len(order)):
+                    for a in vals:
+                        for b in vals:
+                            combos.append({order[i]: a, order[j]: b})
+            if len(order) == 1:
+                combos = [{order[0]: a} for a in vals]
+            rng.shuffle(combos)
+            for kw in combos[:(6 if quick else 40)]:
+                full = {p: kw.get(p, "1") for p in order}
+                ss = full.pop("signal_scale", None)
+                if ss is not None and Fraction(ss) > 4:
+                    ss = "2"
+                if ss is not None and 0 < Fraction(ss) < 1:
+                    ss = "1/2"
+                n = rng.randint(2, 6)
+                yield {"tag": f"opts_{name}", "kind": "scheme", "source": "mock", "scheme": name,
+                       "args": [full[p] for p in order if p != "signal_scale"], "signal_scale": ss,
+                       "arg_type": rng.choice(["float", "float", "int", "bool", "np64"]),
+                       "mock": self._mock_obj(rng, n, True, name in SPLIT_SCHEMES), "symmetric": True, "decade": 1}
+        # (b) SettingsInversion x SettingsInversion, SettingsInversion x Preloads slots: none may change the matrices
+        sig = inspect.signature(aa.SettingsInversion.__init__).parameters
+        sopts = []
+        for pname, prm in sig.items():
+            if pname == "self":
+                continue
+            d = prm.default
+            if isinstance(d, bool):
+                alts = [not d]
+            elif d is None:
+                alts = [True, False, 0, 0.0] if "use_" in pname or "positive" in pname else [0, 0.0, 1, 0.5]
+            elif isinstance(d, (int, float)):
+                alts = [0, type(d)(d * 2 + 1)]
+            else:
+                continue
+            sopts.append((pname, alts))
+        psig = [p for p in inspect.signature(aa.Preloads.__init__).parameters if p != "self"]
+        pairs = []
+        for i in range(len(sopts)):
+            for j in range(i + 1, len(sopts)):
+                pairs.append(("ss", sopts[i], sopts[j]))
+            for slot in psig:
+                pairs.append(("sp", sopts[i], slot))
+        for i in range(len(psig)):
+            for j in range(i + 1, len(psig)):
+                pairs.append(("pp", psig[i], psig[j]))
+        rng.shuffle(pairs)
+        for kind, a, b in pairs[:(90 if quick else 600)]:
+            settings, slots = {}, []
+            if kind == "ss":
+                settings = {a[0]: rng.choice(a[1]), b[0]: rng.choice(b[1])}
+            elif kind == "sp":
+                settings = {a[0]: rng.choice(a[1])}
+                slots = [b]
+            else:
+                slots = [a, b]
+            objs = []
+            for _ in range(rng.randint(1, 3)):
+                if rng.random() < 0.3:
+                    objs.append({"type": "linear_obj", "params": rng.randint(1, 3)})
+                else:
+                    n = rng.randint(1, 4)
+                    name = rng.choice(RATIONAL_SCHEMES + SPLIT_SCHEMES)
+                    args, ss = self._scheme_args(rng, name)
+                    objs.append({"type": "mapper", "params": n, "scheme": name, "args": args, "signal_scale": ss,
+                                 "mock": self._mock_obj(rng, n, True, name in SPLIT_SCHEMES)})
+            yield {"tag": f"opts_inversion_{kind}", "kind": "inversion", "objs": objs,
+                   "preload": "correct" if "regularization_matrix" in slots else "absent",
+                   "settings": {k: (v if not isinstance(v, float) else q(v)) for k, v in settings.items()},
+                   "settings_float": [k for k, v in settings.items() if isinstance(v, float)],
+                   "slots": slots, "reassign": rng.random() < 0.3}
+
+    def _small_world(self, rng, kinds=("mock", "rect", "delaunay")):
+        src = rng.choice(kinds)
+        if src == "mock":
+            n = rng.randint(2, 6)
+            mock = self._mock_obj(rng, n, symmetric=True)
+            mock.pop("int_inputs", None)
+            return {"source": "mock", "mock": mock}
+        frame = self._data_frame(rng)
+        if sum(1 for b in frame["mask"]["bits"] if b == "0") < 3:
+            frame = self._data_frame(rng)
+        frame["adapt"] = [a if Fraction(a) > 0 else "1" for a in frame["adapt"]]
+        w = {"source": src, "route": rng.choice(["direct", "direct", "mesh"]), **frame}
+        if src == "rect":
+            w["mesh_shape"] = [rng.randint(3, 4), rng.randint(3, 4)]
+        else:
+            w["points"] = self._delaunay_points(rng, rng.randint(4, 7))
+            w["container"] = rng.choice(["ndarray", "list", "irregular"])
+        return w
+
+    @staticmethod
+    def _world_points(w):
+        if w["source"] == "mock":
+            return [[fl(a), fl(b)] for a, b in w["mock"]["points"]]
+        if w["source"] == "delaunay":
+            return [[fl(a), fl(b)] for a, b in w["points"]]
+        return None
+
+    @staticmethod
+    def _compatible(w, name):
+        if name in SPLIT_SCHEMES:
+            return w["source"] == "delaunay"
+        if name in KERNEL_SCHEMES:
+            return w["source"] in ("mock", "delaunay")
+        return True
+
+    def _pool(self, rng, worlds, size):
+        """scheme specifications whose coefficients are drawn from two values, so that sibling schemes share them"""
+        c, z = q(self._coef(rng)), q(self._coef(rng))
+        ss = q(rng.choice([1, 2, 3, Fraction(1, 2)]))
+        cands = [("ConstantZeroth", [c, z], None), ("Constant", [c], None), ("AdaptiveBrightness", [c, z], ss),
+                 ("Zeroth", [c], None), ("BrightnessZeroth", [c], ss), ("Constant", [z], None),
+                 ("ConstantZeroth", [z, c], None)]
+        if any(w["source"] == "delaunay" for w in worlds):
+            cands += [("ConstantSplit", [c], None), ("AdaptiveBrightnessSplit", [c, z], ss)]
+        pts = next((self._world_points(w) for w in worlds if self._world_points(w)), None)
+        if pts and len(pts) > 1:
+            P = np.array(pts)
+            d = np.sqrt(((P[:, None, :] - P[None, :, :]) ** 2).sum(-1))
+            dmin = d[d > 0].min() if (d > 0).any() else 1.0
+            m, e = math.frexp(float(rng.choice([0.5, 0.75, 1.0])) * dmin)
+            sc = q(math.ldexp(round(m * 1024), e - 10))
+            cands += [("GaussianKernel", [c, sc], None), ("ExponentialKernel", [z, sc], None)]
+        pool = [{"scheme": n_, "args": list(a), "signal_scale": s_, "arg_type": "float"}
+                for n_, a, s_ in rng.sample(cands, min(size, len(cands)))]
+        for sp in pool:
+            if sp["scheme"] in KERNEL_SCHEMES:
+                sp["scale_abs"] = True
+        return pool
+
+    def _twin(self, rng, sp, k):
+        """a near-duplicate of a pool entry: one coefficient (or the signal scale) differs by 2e-7 .. 8e-6 relative"""
+        t = copy.deepcopy(sp)
+        d = Fraction(rng.randint(2, 80), 10 ** 7)
+        if t.get("signal_scale") is not None and rng.random() < 0.3:
+            t["signal_scale"] = q(float(Fraction(t["signal_scale"]) * (1 + d)))
+        else:
+            i = rng.randrange(len(t["args"]))
+            t["args"][i] = q(float(Fraction(t["args"][i]) * (1 + rng.choice([-1, 1]) * d)))
+        t["twin_of"] = k
+        return t
+
+    def _ev(self, rng, worlds, pool, k=None, i=None, **kw):
+        """one eval step of a compatible (world, pool entry) pair"""
+        for _ in range(50):
+            kk = rng.randrange(len(worlds)) if k is None else k
+            ii = rng.randrange(len(pool)) if i is None else i
+            if self._compatible(worlds[kk], pool[ii]["scheme"]):
+                break
+        else:
+            return None
+        vias = ["from", "from", "obj", "mock_inv"] + (["real_inv"] if worlds[kk]["source"] != "mock" else [])
+        st = {"op": "eval", "world": kk, "spec": ii, "via": rng.choice(vias), "inst": rng.choice(["pool", "pool", "fresh"]),
+              "weights_first": rng.random() < 0.4, "reduced_first": rng.random() < 0.5,
+              "extra_first": rng.random() < 0.5, "extra": rng.randint(1, 2)}
+        st.update(kw)
+        return st
+
+    def _gen_reuse(self, rng, quick):
+        """reuse histories (round 4, re-implemented; R5-D configuration flips as one more kind of step: nothing the
+        anchored code of C07 reads comes from the configuration, so no value may change a matrix.
+        `structures.native_binned_only` is not flipped: it switches the data structures to another storage mode
+        (autocti) in which an over-sampled grid cannot be built at all)"""
+        conf_flips = [("inversion", "use_positive_only_solver", False), ("inversion", "check_reconstruction", False),
+                      ("inversion", "positive_only_uses_p_initial", False),
+                      ("inversion", "no_regularization_add_to_curvature_diag_value", "1/2"),
+                      ("numba", "use_numba", False),
+                      ("fits", "flip_for_ds9", True)]
+        for _ in range(26 if quick else 220):
+            worlds = [self._small_world(rng)]
+            r = rng.random()
+            if r < 0.3:
+                worlds.append(self._small_world(rng))
+            elif r < 0.55 and worlds[0]["source"] != "mock":
+                # a second mapper on the same mesh object (same geometry), with another adapt image
+                w2 = copy.deepcopy(worlds[0])
+                w2["adapt"] = [q(gen.pos_dyadic(rng, 1, 8, 2)) for _ in w2["adapt"]]
+                w2.pop("int_inputs", None)
+                w2["share_mesh_with"] = 0
+                worlds.append(w2)
+            pool = self._pool(rng, worlds, rng.randint(2, 4))
+            if rng.random() < 0.5:
+                pool.append(self._twin(rng, pool[0], 0))
+            if rng.random() < 0.3:
+                k0 = rng.randrange(len(pool))
+                cp = copy.deepcopy(pool[k0])
+                cp.pop("twin_of", None)
+                i = rng.randrange(len(cp["args"]) - (1 if cp["scheme"] in KERNEL_SCHEMES else 0))
+                cp["args"][i] = q(float(Fraction(cp["args"][i]) + Fraction(1, 2)))  # (an exact double)
+                cp.update({"copy_of": k0, "deep": rng.random() < 0.5})
+                pool.append(cp)
+            steps = []
+            for _ in range(rng.randint(3, 4)):
+                steps.append(self._ev(rng, worlds, pool))
+            for _ in range(rng.randint(1, 2)):
+                kind = rng.choice(["edit_adapt", "edit_adapt", "edit_attr", "edit_attr", "fault", "decoy", "copy_obj",
+                                   "scribble", "config", "config", "config"])
+                k = rng.randrange(len(worlds))
+                if kind == "edit_adapt":
+                    w = worlds[k]
+                    nn = w["mock"]["params"] if w["source"] == "mock" else len(w["adapt"])
+                    val = q(Fraction(rng.randint(1, 15), 16)) if w["source"] == "mock" else q(rng.randint(1, 9))
+                    steps.append({"op": "edit_adapt", "world": k, "index": rng.randrange(nn), "value": val})
+                elif kind == "edit_attr":
+                    i = rng.randrange(len(pool))
+                    sp = pool[i]
+                    if sp.get("signal_scale") is not None and rng.random() < 0.4:
+                        steps.append({"op": "edit_attr", "spec": i, "attr": "signal_scale",
+                                      "value": q(rng.choice([1, 2, 3, Fraction(3, 2)]))})
+                    else:
+                        j = rng.randrange(len(sp["args"]) - (1 if sp["scheme"] in KERNEL_SCHEMES else 0))
+                        steps.append({"op": "edit_attr", "spec": i, "attr": j, "value": q(self._coef(rng))})
+                elif kind == "config":
+                    sec, key, val = rng.choice(conf_flips)
+                    steps.append({"op": "config", "section": sec, "key": key, "value": val, "float": isinstance(val, str)})
+                elif kind in ("decoy", "copy_obj"):
+                    steps.append({"op": kind, "world": k})
+                else:
+                    steps.append({"op": kind})
+                if kind == "fault":
+                    # afterwards every instance and every world changes state, and all are read again
+                    for i, sp in enumerate(pool):
+                        if sp.get("copy_of") is None and sp["scheme"] not in KERNEL_SCHEMES:
+                            steps.append({"op": "edit_attr", "spec": i, "attr": 0, "value": q(self._coef(rng))})
+                if kind == "config":
+                    # the value in force changed between calls: every scheme is read again, through the inversion too
+                    for i in range(len(pool)):
+                        steps.append(self._ev(rng, worlds, pool, i=i, **({"via": "mock_inv"} if i % 2 == 0 else {})))
+                else:
+                    for _ in range(rng.randint(2, 3)):
+                        steps.append(self._ev(rng, worlds, pool))
+            steps = [st for st in steps if st]
+            # the specification the reads are judged by follows the edits: apply them to the pool copies here? no —
+            # run_impl replays the steps on its own copies; the case stores the INITIAL specification
+            yield {"tag": f"reuse_{'_'.join(w['source'] for w in worlds)}", "kind": "reuse", "worlds": worlds,
+                   "pool": pool, "steps": steps}
+
+    def _gen_own(self, rng, quick):
+        """R5-B ownership histories: observe -> (sibling call) -> re-read the arrays handed out -> scribble over
+        everything returned or accepted -> rebuild the same worlds from fresh equal inputs -> observe; three rounds"""
+        for _ in range(16 if quick else 130):
+            w0 = self._small_world(rng)
+            worlds = [w0]
+            if rng.random() < 0.6:
+                # a same-key neighbour: same shapes / sizes, other values (a memo keyed on shape alone confuses them)
+                w1 = copy.deepcopy(w0)
+                if w1["source"] == "mock":
+                    n = w1["mock"]["params"]
+                    sig = [Fraction(rng.randint(0, 16), 16) for _ in range(n)]
+                    sig[rng.randrange(n)] = Fraction(1)
+                    w1["mock"]["signals"] = qlist(sig)
+                    nb, sizes = self._mock_graph(rng, n, True, False)
+                    w1["mock"]["neighbors"], w1["mock"]["sizes"] = nb, sizes
+                else:
+                    w1["adapt"] = [q(gen.pos_dyadic(rng, 1, 8, 2)) for _ in w1["adapt"]]
+                    w1.pop("int_inputs", None)
+                    sy, sx = gen.scales_pair(rng)
+                    w1["scales"] = [q(sy), q(sx)]
+                worlds.append(w1)
+            pool = self._pool(rng, worlds, rng.randint(2, 3))
+            steps = []
+            for rnd in range(3):
+                evs = []
+                for k in range(len(worlds)):
+                    for i in rng.sample(range(len(pool)), min(2, len(pool))):
+                        st = self._ev(rng, worlds, pool, k=k, i=i, hold=True, inst="fresh" if rng.random() < 0.7 else "pool")
+                        if st:
+                            evs.append(st)
+                rng.shuffle(evs)
+                steps += evs[:3]
+                steps.append({"op": "recheck"})
+                steps.append({"op": "scribble_all"})
+            st = self._ev(rng, worlds, pool)
+            if st:
+                steps.append(st)
+            yield {"tag": f"own_{'_'.join(w['source'] for w in worlds)}", "kind": "own", "worlds": worlds,
+                   "pool": pool, "steps": steps}
+
+    @staticmethod
+    def _factor_near(t, side, thin):
+        """(h, w), h != w, both >= 3, with h*w the factorable number nearest to t on the given side"""
+        for d in range(0, 400):
+            tt = t + side * d
+            if tt < 12:
+                continue
+            fs = [(h, tt // h) for h in range(3, math.isqrt(tt) + 1) if tt % h == 0 and tt // h != h]
+            if fs:
+                return fs[0] if thin else fs[-1]
+        return (3, max(4, t // 3))
+
+    def _large_scheme_case(self, rng, t, recipe, name, hint=None, side=1):
+        args, ss = self._scheme_args(rng, name)
+        frame = self._data_frame(rng)
+        frame.pop("int_inputs", None)
+        if name in SIGNAL_SCHEMES:
+            frame["adapt"] = [a if Fraction(a) > 0 else "2" for a in frame["adapt"]]
+        c = {"kind": "large", "recipe": recipe, "source": recipe, "hint": hint, "scheme": name, "args": args,
+             "signal_scale": ss, "seed": rng.randrange(10 ** 6), "dir": side,
+             "arg_type": rng.choice(["float", "float", "int", "np64"]), "t": t, "weights_first": rng.random() < 0.5}
+        if name in KERNEL_SCHEMES:
+            c["arg_type"] = "float"
+            c["args"] = [args[0], q(rng.choice([Fraction(1, 2), 1, Fraction(3, 2), 2, 3]))]
+        if recipe == "rect":
+            h, w = self._factor_near(t, side, rng.random() < 0.5)
+            if rng.random() < 0.5:
+                h, w = w, h
+            c.update({"mesh_shape": [h, w], "t": h * w, "route": rng.choice(["direct", "mesh"]), **frame})
+        elif recipe == "delaunay":
+            c.update({"route": rng.choice(["direct", "mesh"]), "container": rng.choice(["ndarray", "list", "irregular"]),
+                      **frame})
+        else:
+            c["graph"] = "star" if rng.random() < 0.12 and name not in SPLIT_SCHEMES else "ring"
+        c["tag"] = f"large_{recipe}_{name}"
+        return c
+
+    def _large_kernel_lattice(self, rng, n_lo, n_hi):
+        name = rng.choice(["GaussianKernel", "GaussianKernel", "ExponentialKernel"])
+        lh = rng.randint(6, 20)
+        lw = max(6, min(24, rng.randint(n_lo, n_hi) // lh))
+        ratio = rng.choice([1, Fraction(3, 2), 2, 2, 3] if name == "GaussianKernel" else [1, 2, 3, 5])
+        return {"kind": "large", "recipe": "mock", "source": "mock", "hint": None, "scheme": name,
+                "args": [q(self._coef(rng)), q(ratio)], "signal_scale": None, "seed": rng.randrange(10 ** 6),
+                "arg_type": "float", "t": lh * lw, "graph": "ring",
+                "lattice": [lh, lw, q(Fraction(2) ** rng.randint(-3, 2)), q(rng.choice([1, 1, Fraction(3, 4), Fraction(3, 2)]))],
+                "offset": [q(gen.dyadic(rng, -9, 9, 3)), q(gen.dyadic(rng, -9, 9, 3))],
+                "tag": f"large_lattice_{name}"}
+
+    def _large_neighbors_case(self, rng, h, w, hint=None):
+        return {"kind": "large", "recipe": "neighbors", "shape": [h, w], "hint": hint, "through_mesh": h >= 3 and w >= 3,
+                "tag": "large_neighbors"}
+
+    def _large_signals_case(self, rng, t, hint=None, sub=1):
+        fw = rng.randint(max(3, math.isqrt(t) - 20), math.isqrt(t) + 20)
+        fh = -(-t // fw) + rng.randint(0, 2)
+        rect = rng.random() < 0.6
+        sy, sx = gen.scales_pair(rng)
+        oy, ox = gen.origin_pair(rng)
+        c = {"kind": "large", "recipe": "signals", "source": "rect" if rect else "delaunay", "frame": [fh, fw], "t": t,
+             "hint": hint, "sub": sub, "seed": rng.randrange(10 ** 6), "scales": [q(sy), q(sx)], "origin": [q(oy), q(ox)],
+             "signal_scale": q(rng.choice([1, 2, Fraction(1, 2)])), "tag": "large_signals"}
+        if rect:
+            c["mesh_shape"] = [rng.randint(3, 6), rng.randint(3, 6)]
+        else:
+            c["vertices"] = rng.randint(5, 12)
+        return c
+
+    def _large_inversion_case(self, rng, sizes, hint=None):
+        return {"kind": "large", "recipe": "inversion", "sizes": sizes, "seed": rng.randrange(10 ** 6), "hint": hint,
+                "reduced_first": rng.random() < 0.5, "tag": "large_inversion"}
+
+    def _gen_large_always(self, rng, quick):
+        """R5-E: mid / large sizes in every run (no size hint needed)"""
+        nonkernel = RATIONAL_SCHEMES + SPLIT_SCHEMES
+        for _ in range(2 if quick else 10):
+            recipe = rng.choice(["rect", "delaunay", "mock"])
+            names = [x for x in nonkernel if not (x in SPLIT_SCHEMES and recipe == "rect")]
+            t = rng.randint(260, 900) if quick else rng.choice([rng.randint(260, 900), rng.randint(900, 2100)])
+            yield self._large_scheme_case(rng, t, recipe, rng.choice(names))
+        # kernel schemes on dense meshes many kernel lengths across (scale 1 .. 5 mesh spacings)
+        for _ in range(2 if quick else 8):
+            yield self._large_kernel_lattice(rng, 100, 330 if quick else 440)
+        c = self._large_scheme_case(rng, rng.randint(100, 300), "rect", "GaussianKernel")
+        yield c
+        # index tables beyond 2^15 (quick) and 2^16 (thorough) pixels / sub-pixels
+        h = rng.randint(150, 200)
+        yield self._large_neighbors_case(rng, h, (2 ** 15) // h + rng.randint(1, 9))
+        yield self._large_signals_case(rng, 2 ** 15 + rng.randint(1, 300))
+        if not quick:
+            h = rng.randint(200, 300)
+            yield self._large_neighbors_case(rng, h, (2 ** 16) // h + rng.randint(1, 9))
+            yield self._large_neighbors_case(rng, 3, 2 ** 15 + rng.randint(1, 99))
+            yield self._large_signals_case(rng, 2 ** 16 + rng.randint(1, 300))
+            yield self._large_signals_case(rng, 2 ** 14 + rng.randint(1, 300), sub=2)
+        for _ in range(1 if quick else 4):
+            k = rng.randint(150, 400)
+            yield self._large_inversion_case(rng, [rng.randint(1, 3) for _ in range(k)])
+
+    def generate_large(self, hints, rng):
+        """constant-directed cases (DESIGN §13): sizes on both sides of every new integer constant, in every size
+        dimension of the property"""
+        nonkernel = RATIONAL_SCHEMES + SPLIT_SCHEMES
+        for c in hints:
+            if c < 8:
+                continue
+            for rank, (t, side) in enumerate([(c + c // 3 + 1, 1), (c, -1), (c + 1, 1), (c - 1, -1), (2 * c + 1, 1)]):
+                if t < 4:
+                    continue
+                full = rank < 3
+                if t <= self.LARGE_DENSE_MAX:
+                    for recipe in ("rect", "delaunay", "mock"):
+                        names = [x for x in nonkernel if not (x in SPLIT_SCHEMES and recipe == "rect")]
+                        if not full:
+                            names = rng.sample(names, 2)
+                        for name in names:
+                            yield self._large_scheme_case(rng, t, recipe, name, hint=c, side=side)
+                    # neighbours of ONE pixel: a star whose hub has t - 1 neighbours
+                    if t <= 2500:
+                        s_ = self._large_scheme_case(rng, t, "mock", rng.choice(RATIONAL_SCHEMES), hint=c, side=side)
+                        s_["graph"] = "star"
+                        yield s_
+                    # total parameters / number of objects / unregularized indexes of an inversion
+                    yield self._large_inversion_case(rng, [1] * t, hint=c)
+                    sizes = []
+                    while sum(sizes) < t:
+                        sizes.append(rng.randint(1, 3))
+                    yield self._large_inversion_case(rng, sizes, hint=c)
+                    big = [t - 3, 1, 2] if t > 6 else [t]
+                    rng.shuffle(big)
+                    yield self._large_inversion_case(rng, big, hint=c)
+                    nobj = [1] * max(1, t // 2 - 1)
+                    yield self._large_inversion_case(rng, [rng.randint(1, 3) for _ in nobj] if t <= 2000 else nobj, hint=c)
+                if t <= self.LARGE_KERNEL_MAX:
+                    for name in KERNEL_SCHEMES:
+                        for recipe in ("rect", "mock"):
+                            yield self._large_scheme_case(rng, t, recipe, name, hint=c, side=side)
+                if 3 * t <= 400000:
+                    for h, w in [(3, t), (t, 4), (t, 3), self._factor_near(t, side, False), self._factor_near(t, side, True)]:
+                        if h * w <= 400000:
+                            yield self._large_neighbors_case(rng, h, w, hint=c)
+                if t <= 70000:
+                    yield self._large_signals_case(rng, t, hint=c)
+                    if full:
+                        yield self._large_signals_case(rng, max(4, t // 4), hint=c, sub=2)
+                    # t mesh pixels / vertices under a small frame, a signal scheme reading them
+                    if t <= self.LARGE_DENSE_MAX:
+                        yield self._large_scheme_case(rng, t, "rect", "AdaptiveBrightness", hint=c, side=side)
+                        yield self._large_scheme_case(rng, t, "delaunay", "BrightnessZeroth", hint=c, side=side)
+
     # ------------------------------------------------------------------ generation
     def generate(self, tier, rng):
         quick = tier == "quick"
@@ -681,6 +2321,14 @@ class C07(PropertyCheck):
             # Preloads(regularization_matrix=...): absent / explicit None / the matrix a fresh equal inversion computes
             pre = rng.choice(["absent", "none", "correct", "correct"])
             yield {"tag": f"blocks_{k}_preload_{pre}", "kind": "inversion", "objs": objs, "preload": pre}
+        # 8. round 5/6 streams (design note § "Round 5/6 hardening")
+        yield from self._gen_decades(rng, quick)
+        yield from self._gen_near(rng, quick)
+        yield from self._gen_layout(rng, quick)
+        yield from self._gen_opts(rng, quick)
+        yield from self._gen_reuse(rng, quick)
+        yield from self._gen_own(rng, quick)
+        yield from self._gen_large_always(rng, quick)
 
     # ------------------------------------------------------------------ implementation
     def run_impl(self, case):
@@ -696,17 +2344,30 @@ class C07(PropertyCheck):
             return self._impl_rect_neighbors(aa, case)
         if kind == "history":
             return self._impl_history(aa, case)
+        if kind in READS_KINDS:
+            try:
+                return self._impl_reads(aa, case)
+            except Exception as e:  # Qhull degenerate input (collinear vertices …): not a regularization matter
+                if "Qhull" in type(e).__name__ or "qhull" in str(e).lower():
+                    raise Skip("qhull")
+                raise
+        if kind == "large":
+            return self._impl_large(aa, case)
         return self._impl_inversion(aa, case)
 
     def _resolve_kernel_scale(self, case, pts):
         """kernel scale = factor x smallest point separation (so the kernel matrix is well conditioned);
         rounded to a dyadic so the model receives the exact same double"""
+        if case.get("scale_abs"):
+            return fl(case["args"][1])  # the scale itself (histories: fixed when the case is generated)
         factor = fl(case["args"][1])
         P = np.array(pts, dtype=float)
         d = np.sqrt(((P[:, None, :] - P[None, :, :]) ** 2).sum(-1))
         dmin = d[d > 0].min() if (d > 0).any() else 1.0
         s = factor * dmin
-        return float(Fraction(round(s * 1024), 1024)) or 1.0 / 1024
+        # 10 significant bits, relative to the binade of s (the points may live at any decade)
+        m, e = math.frexp(s)
+        return math.ldexp(round(m * 1024), e - 10)
 
     def _impl_scheme(self, aa, case):
         from autoarray import exc
@@ -716,7 +2377,7 @@ class C07(PropertyCheck):
         closed = None
         if case["source"] == "mock":
             tables = {k: v for k, v in case["mock"].items()}
-            mapper_f = lambda: _mock_mapper(aa, case["mock"])
+            mapper_f = lambda: _mock_mapper(aa, case["mock"], lay=case.get("lay"))
         else:
             try:
                 mapper = _real_mapper(aa, case)
@@ -773,8 +2434,10 @@ class C07(PropertyCheck):
 
         fn = case["fn"]
         n = case["n"]
+        lay = case.get("lay") or {}
         if fn in ("reg_split_from", "pixel_splitted"):
             m, s, w = _split_arrays(case["split"])
+            m, s, w = _lay(m, lay.get("mappings")), _lay(s, lay.get("sizes")), _lay(w, lay.get("weights"))
             try:
                 m2, s2, w2 = ru.reg_split_from(splitted_mappings=m, splitted_sizes=s, splitted_weights=w)
             except exc.MeshException:
@@ -784,7 +2447,7 @@ class C07(PropertyCheck):
             if fn == "reg_split_from":
                 return {"mappings": [[int(v) for v in r] for r in m2], "sizes": [int(v) for v in s2],
                         "weights": qmat(w2)}
-            rw = np.array([fl(v) for v in case["weights"]])
+            rw = _lay(np.array([fl(v) for v in case["weights"]]), lay.get("reg_weights"))
             H = ru.pixel_splitted_regularization_matrix_from(
                 regularization_weights=rw, splitted_mappings=m2, splitted_sizes=s2, splitted_weights=w2)
             return {"matrix": qmat(H), "post": {"mappings": [[int(v) for v in r] for r in m2],
@@ -800,6 +2463,7 @@ class C07(PropertyCheck):
             wts = wts.astype(np.int64)
         elif dt == "float32":
             wts = wts.astype(np.float32)  # 3-bit dyadics: squares exact in float32
+        nb, sizes, wts = _lay(nb, lay.get("neighbors")), _lay(sizes, lay.get("sizes")), _lay(wts, lay.get("weights"))
         if fn == "constant":
             H = ru.constant_regularization_matrix_from(coefficient=c, neighbors=nb, neighbors_sizes=sizes)
         elif fn == "constant_zeroth":
@@ -916,10 +2580,26 @@ class C07(PropertyCheck):
                 objs.append(_mock_mapper(aa, o["mock"], regularization=reg))
                 blocks.append(True)
         pre = case.get("preload", "absent")
+        kw = {}
+        if case.get("settings"):
+            sv = {k: (fl(v) if k in case.get("settings_float", []) else v) for k, v in case["settings"].items()}
+            kw["settings"] = aa.SettingsInversion(**sv)
+        slots = {}
+        tot = sum(o["params"] for o in case["objs"])
+        for sl in case.get("slots", []):
+            if sl == "regularization_matrix":
+                continue
+            # the other preload slots hold quantities of other properties: plausible stand-ins of the right shape
+            slots[sl] = {"use_w_tilde": False, "log_det_regularization_matrix_term": 0.0,
+                         "curvature_matrix": np.eye(tot), "operated_mapping_matrix": np.ones((3, tot)),
+                         "data_vector_mapper": np.ones(tot), "curvature_matrix_mapper_diag": np.eye(tot),
+                         "mapper_list": [], "w_tilde": None}.get(sl, None)
         if pre == "absent":
-            inv = aa.m.MockInversion(linear_obj_list=objs)
+            if slots or "slots" in case:
+                kw["preloads"] = aa.Preloads(**slots)
+            inv = aa.m.MockInversion(linear_obj_list=objs, **kw)
         elif pre == "none":
-            inv = aa.m.MockInversion(linear_obj_list=objs, preloads=aa.Preloads(regularization_matrix=None))
+            inv = aa.m.MockInversion(linear_obj_list=objs, preloads=aa.Preloads(regularization_matrix=None, **slots), **kw)
         else:
             # what a previous, equal inversion computed — handed back through Preloads
             objs0 = []
@@ -931,7 +2611,14 @@ class C07(PropertyCheck):
                         aa, o["scheme"], o["args"], o.get("signal_scale"), o.get("arg_type", "float"),
                         o.get("defaults", False))))
             H0 = np.array(aa.m.MockInversion(linear_obj_list=objs0).regularization_matrix, dtype=float)
-            inv = aa.m.MockInversion(linear_obj_list=objs, preloads=aa.Preloads(regularization_matrix=H0))
+            if case.get("reassign"):
+                # the slot is empty when the inversion is made and assigned before the first read
+                pl = aa.Preloads(**slots)
+                inv = aa.m.MockInversion(linear_obj_list=objs, preloads=pl, **kw)
+                pl.regularization_matrix = H0
+            else:
+                inv = aa.m.MockInversion(linear_obj_list=objs,
+                                         preloads=aa.Preloads(regularization_matrix=H0, **slots), **kw)
         H = np.asarray(inv.regularization_matrix)
         R = np.asarray(inv.regularization_matrix_reduced)
         # the per-object matrices, each from a fresh equal object (observed, for the oracle)
@@ -953,23 +2640,18 @@ class C07(PropertyCheck):
         if isinstance(obs, dict) and "err" in obs and "inputs" not in obs and kind != "util":
             return []  # undocumented exception in the implementation: nothing to compare, the oracle reports it
         if kind == "scheme":
-            name = case["scheme"]
-            inp = obs["inputs"]
-            t = inp["tables"]
-            if name in KERNEL_SCHEMES:
-                reqs = [{"op": "c07.cov", "kind": "gauss" if name == "GaussianKernel" else "exp",
-                         "scale": inp["args"][1], "ridge": q(RIDGE), "points": t["points"]}]
-                if t["params"] <= 12 and inp.get("cond", 1e99) <= COND_COMPARE_MAX:
-                    reqs.append({"op": "c07.scheme", "num": "float", "scheme": name, "args": inp["args"],
-                                 "ridge": q(RIDGE), "ridge2": q(RIDGE2), "obj": {"params": t["params"], "points": t["points"]}})
-                return reqs
-            reqs = [{"op": "c07.scheme", "num": "rat", "scheme": name, "args": inp["args"],
-                     "ridge": q(RIDGE), "ridge2": q(RIDGE2), "obj": t}]
-            if inp.get("closed") is not None:
-                # the same scheme from the mesh shape / mapper tables alone: the model computes the
-                # neighbour table (rectangular_neighbors_from) and the pixel signals itself
-                reqs.append({**reqs[0], "obj": inp["closed"]})
+            return self._scheme_requests(case["scheme"], obs)
+        if kind in READS_KINDS:
+            reqs, spans = [], []
+            for rd in obs["reads"]:
+                rs = self._scheme_requests(rd["scheme"], rd) if "err" not in rd else []
+                spans.append((len(reqs), len(reqs) + len(rs)))
+                reqs += rs
+            case["_spans"] = spans
+            case["_read_meta"] = [{k: rd.get(k) for k in ("scheme", "source", "decade", "f32")} for rd in obs["reads"]]
             return reqs
+        if kind == "large":
+            return []
         if kind == "rect_neighbors":
             return [{"op": "c07.rect_neighbors", "shape": case["shape"]}]
         if kind == "util":
@@ -1012,33 +2694,134 @@ class C07(PropertyCheck):
                 objs.append({"params": o["params"], "scheme": o["scheme"], "args": o["args"], "obj": o["mock"]})
         return [{"op": "c07.inversion", "objs": objs, "ridge": q(RIDGE), "ridge2": q(RIDGE2)}]
 
+    def _scheme_requests(self, name, obs):
+        """driver requests for one scheme observation (its `inputs` carry the tables of a FRESH linear object)"""
+        inp = obs["inputs"]
+        t = inp["tables"]
+        if name in KERNEL_SCHEMES:
+            if t["params"] > 40:
+                return []
+            reqs = [{"op": "c07.cov", "kind": "gauss" if name == "GaussianKernel" else "exp",
+                     "scale": inp["args"][1], "ridge": q(RIDGE), "points": t["points"]}]
+            if t["params"] <= 12 and inp.get("cond", 1e99) <= COND_COMPARE_MAX:
+                reqs.append({"op": "c07.scheme", "num": "float", "scheme": name, "args": inp["args"],
+                             "ridge": q(RIDGE), "ridge2": q(RIDGE2), "obj": {"params": t["params"], "points": t["points"]}})
+            return reqs
+        reqs = [{"op": "c07.scheme", "num": "rat", "scheme": name, "args": inp["args"],
+                 "ridge": q(RIDGE), "ridge2": q(RIDGE2), "obj": t}]
+        if inp.get("closed") is not None:
+            # the same scheme from the mesh shape / mapper tables alone: the model computes the
+            # neighbour table (rectangular_neighbors_from) and the pixel signals itself
+            reqs.append({**reqs[0], "obj": inp["closed"]})
+        return reqs
+
+    def _scheme_mobs(self, name, responses):
+        if name in KERNEL_SCHEMES:
+            out = {}
+            if "err" in responses[0]:
+                return {"err": responses[0]["err"]}
+            out["cov"] = responses[0]["ok"]
+            if len(responses) > 1:
+                if "err" in responses[1]:
+                    return {"err": responses[1]["err"]}
+                out["weights"] = responses[1]["ok"]["weights"]
+                out["matrix"] = responses[1]["ok"]["matrix"]
+            return out
+        r = responses[0]
+        if "err" in r:
+            return {"err": r["err"]}
+        M = r["ok"]["matrix"]
+        out = {"shape": [len(M), len(M[0]) if M else 0], "weights": r["ok"]["weights"], "matrix": M}
+        if len(responses) > 1:
+            r2 = responses[1]
+            if "err" in r2:
+                return {"err": r2["err"]}
+            M2 = r2["ok"]["matrix"]
+            out["closed"] = {"shape": [len(M2), len(M2[0]) if M2 else 0], "weights": r2["ok"]["weights"],
+                             "matrix": M2}
+        return out
+
+    @staticmethod
+    def _rel_diff(cmp, a, b, rtol, floor, path="$"):
+        """per-entry RELATIVE comparison (|a-b| <= rtol*max(|a|,|b|) + floor) of nested lists of numbers: the
+        decades streams hold values of any magnitude, where `Cmp`'s `max(1, .)` would compare nothing"""
+        if isinstance(a, (list, tuple)) and isinstance(b, (list, tuple)):
+            if len(a) != len(b):
+                return f"{path}: length impl={len(a)} model={len(b)}"
+            for i, (x, y) in enumerate(zip(a, b)):
+                d = C07._rel_diff(cmp, x, y, rtol, floor, f"{path}[{i}]")
+                if d:
+                    return d
+            return None
+        try:
+            fa, fb = Fraction(a), Fraction(b)
+        except (ValueError, TypeError):
+            return None if a == b else f"{path}: impl={a!r} model={b!r}"
+        if fa == fb:
+            cmp.exact += 1
+            return None
+        if abs(fa - fb) <= rtol * max(abs(fa), abs(fb)) + floor:
+            cmp.tolerant += 1
+            return None
+        return f"{path}: impl={float(fa)!r} model={float(fb)!r} (|Δ|={float(abs(fa - fb)):.3e}, relative comparison)"
+
+    def _scheme_cmp(self, meta, impl, model, cmp, sub):
+        """one scheme observation against the model's; `meta`: scheme, source, decade, f32"""
+        name = meta["scheme"]
+        if isinstance(impl, dict) and "err" in impl:
+            return cmp.diff({"err": impl["err"]}, {"err": model.get("err")} if isinstance(model, dict) else model)
+        if isinstance(model, dict) and "err" in model:
+            return f"$: impl returned a value, model {model}"
+        if name in KERNEL_SCHEMES:
+            d = sub(impl["cov"], model["cov"], Fraction(1, 10 ** 9))
+            if d or "matrix" not in model:
+                return d
+            mx = max(abs(fl(v)) for r in impl["matrix"] for v in r)
+            if meta.get("decade"):
+                mw = max([abs(Fraction(v)) for v in model["weights"]] + [Fraction(0)])
+                d = self._rel_diff(cmp, impl["weights"], model["weights"], Fraction(0), Fraction(0), "$.weights")
+            else:
+                d = sub(impl["weights"], model["weights"], 0)
+            return d or sub(impl["matrix"], model["matrix"], 0, Fraction(mx) / 10 ** 8)
+        tol = Fraction(1, 10 ** 12) if meta["source"] == "mock" or name in RATIONAL_SCHEMES else Fraction(1, 10 ** 9)
+        a = {k: impl[k] for k in ("shape", "weights", "matrix")}
+        if name in SIGNAL_SCHEMES and meta["source"] != "mock":
+            tol = Fraction(1, 10 ** 10)
+        if meta.get("f32"):
+            tol = Fraction(1, 2 ** 20)  # float32 inputs: numpy keeps the dtype through the weights
+        if meta.get("decade") or meta.get("f32"):
+            def one(b, what):
+                if a["shape"] != b["shape"]:
+                    return f"$.shape: impl={a['shape']} model={b['shape']}"
+                M = [[Fraction(v) for v in r] for r in b["matrix"]]
+                off = max([abs(v) for i, r in enumerate(M) for j, v in enumerate(r) if i != j] + [Fraction(0)])
+                if name in SPLIT_SCHEMES:
+                    # split-cross entries are sums of products of either sign: rounding is relative to the terms, whose
+                    # size is that of the diagonal without its ridge, not to a sum that may cancel
+                    off = max([off] + [abs(M[i][i] - Fraction(RIDGE)) for i in range(len(M))])
+                mw = max([abs(Fraction(v)) for v in b["weights"]] + [Fraction(0)])
+                d = self._rel_diff(cmp, a["weights"], b["weights"], tol, tol * mw if meta.get("f32") else 0, "$.weights")
+                return d or self._rel_diff(cmp, a["matrix"], b["matrix"], tol, tol * off, "$.matrix")
+            d = one({k: model[k] for k in ("shape", "weights", "matrix")}, "")
+            if d or "closed" not in model:
+                return d
+            d = one(model["closed"], "closed")
+            return ("closed model (own neighbour table / own pixel signals): " + d) if d else None
+        d = sub(a, {k: model[k] for k in ("shape", "weights", "matrix")}, tol)
+        if d or "closed" not in model:
+            return d
+        d = sub(a, model["closed"], tol)
+        return ("closed model (own neighbour table / own pixel signals): " + d) if d else None
+
     def model_obs(self, case, responses):
         kind = case["kind"]
         if kind == "scheme":
-            if case["scheme"] in KERNEL_SCHEMES:
-                out = {}
-                if "err" in responses[0]:
-                    return {"err": responses[0]["err"]}
-                out["cov"] = responses[0]["ok"]
-                if len(responses) > 1:
-                    if "err" in responses[1]:
-                        return {"err": responses[1]["err"]}
-                    out["weights"] = responses[1]["ok"]["weights"]
-                    out["matrix"] = responses[1]["ok"]["matrix"]
-                return out
-            r = responses[0]
-            if "err" in r:
-                return {"err": r["err"]}
-            M = r["ok"]["matrix"]
-            out = {"shape": [len(M), len(M[0]) if M else 0], "weights": r["ok"]["weights"], "matrix": M}
-            if len(responses) > 1:
-                r2 = responses[1]
-                if "err" in r2:
-                    return {"err": r2["err"]}
-                M2 = r2["ok"]["matrix"]
-                out["closed"] = {"shape": [len(M2), len(M2[0]) if M2 else 0], "weights": r2["ok"]["weights"],
-                                 "matrix": M2}
-            return out
+            return self._scheme_mobs(case["scheme"], responses)
+        if kind in READS_KINDS:
+            out = []
+            for (a, b), meta in zip(case["_spans"], case["_read_meta"]):
+                out.append(self._scheme_mobs(meta["scheme"], responses[a:b]) if b > a else None)
+            return {"reads": out}
         if kind == "rect_neighbors":
             r = responses[0]
             if "err" in r:
@@ -1081,23 +2864,16 @@ class C07(PropertyCheck):
         if isinstance(model, dict) and "err" in model:
             return f"$: impl returned a value, model {model}"
         if kind == "scheme":
-            name = case["scheme"]
-            if name in KERNEL_SCHEMES:
-                d = sub(impl["cov"], model["cov"], Fraction(1, 10 ** 9))
-                if d or "matrix" not in model:
-                    return d
-                mx = max(abs(fl(v)) for r in impl["matrix"] for v in r)
-                d = sub(impl["weights"], model["weights"], 0)
-                return d or sub(impl["matrix"], model["matrix"], 0, Fraction(mx) / 10 ** 8)
-            tol = Fraction(1, 10 ** 12) if case["source"] == "mock" or name in RATIONAL_SCHEMES else Fraction(1, 10 ** 9)
-            a = {k: impl[k] for k in ("shape", "weights", "matrix")}
-            if name in SIGNAL_SCHEMES and case["source"] != "mock":
-                tol = Fraction(1, 10 ** 10)
-            d = sub(a, {k: model[k] for k in ("shape", "weights", "matrix")}, tol)
-            if d or "closed" not in model:
-                return d
-            d = sub(a, model["closed"], tol)
-            return ("closed model (own neighbour table / own pixel signals): " + d) if d else None
+            return self._scheme_cmp({"scheme": case["scheme"], "source": case["source"], "decade": case.get("decade"),
+                                     "f32": case.get("f32")}, impl, model, cmp, sub)
+        if kind in READS_KINDS:
+            for k, (rd, mo, meta) in enumerate(zip(impl["reads"], model["reads"], case["_read_meta"])):
+                if mo is None:
+                    continue
+                d = self._scheme_cmp(meta, rd, mo, cmp, sub)
+                if d:
+                    return f"read {k} ({rd.get('where', '')}): {d}"
+            return None
         if kind == "rect_neighbors":
             d = sub({"neighbors": impl["neighbors"], "sizes": impl["sizes"]}, model, 0)
             if d or "mesh" not in impl:
@@ -1122,6 +2898,16 @@ class C07(PropertyCheck):
                         return f"step {k} aa.Inversion: " + d
             return None
         a = {k: impl[k] for k in ("matrix", "reduced", "no_reg")}
+        if case.get("decade"):
+            if a["no_reg"] != model["no_reg"]:
+                return f"$.no_reg: impl={a['no_reg']} model={model['no_reg']}"
+            for key in ("matrix", "reduced"):
+                M = [[Fraction(v) for v in r] for r in model[key]]
+                off = max([abs(v) for i, r in enumerate(M) for j, v in enumerate(r) if i != j] + [Fraction(0)])
+                d = self._rel_diff(cmp, a[key], model[key], Fraction(1, 10 ** 12), off / 10 ** 12, "$." + key)
+                if d:
+                    return d
+            return None
         return sub(a, model, Fraction(1, 10 ** 12))
 
     # ------------------------------------------------------------------ oracle (independent of the model)
@@ -1139,6 +2925,10 @@ class C07(PropertyCheck):
             return self._oracle_rect_neighbors(case, obs)
         if kind == "history":
             return self._oracle_history(case, obs)
+        if kind in READS_KINDS:
+            return self._oracle_reads(case, obs)
+        if kind == "large":
+            return self._oracle_large(case, obs)
         return self._oracle_inversion(case, obs)
 
     @staticmethod
@@ -1159,20 +2949,31 @@ class C07(PropertyCheck):
             vs.append(v)
         return vs
 
-    def _check_pd(self, H, n, strict, what):
+    def _check_pd(self, H, n, strict, what, slack=None):
         Hs = [[(H[i][j] + H[j][i]) / 2 for j in range(n)] for i in range(n)]
         if n <= EXACT_LDL_MAX:
             if strict:
                 if ldl_min_pivot(Hs) is None:
                     return False, f"{what}: not positive definite (exact LDL^T has a non-positive pivot)"
             else:
-                Hr = [[Hs[i][j] + (Fraction(1, 10 ** 30) if i == j else 0) for j in range(n)] for i in range(n)]
+                eps = Fraction(1, 10 ** 30) if slack is None else Fraction(slack)
+                if case_scale(Hs) == 0:
+                    return True, ""
+                if slack is None and case_scale(Hs) < Fraction(1, 10 ** 20):
+                    eps = case_scale(Hs) / 10 ** 12
+                Hr = [[Hs[i][j] + (eps if i == j else 0) for j in range(n)] for i in range(n)]
                 if ldl_min_pivot(Hr) is None:
                     return False, f"{what}: not positive semi-definite"
             return True, ""
-        A = np.array([[float(v) for v in r] for r in Hs])
+        sc = max([abs(v) for r in Hs for v in r] + [Fraction(0)])
+        if sc == 0:
+            return (not strict), ("" if not strict else f"{what}: the zero matrix is not positive definite")
+        p2 = Fraction(2) ** (sc.numerator.bit_length() - sc.denominator.bit_length())  # normalise: no over/underflow
+        A = np.array([[float(v / p2) for v in r] for r in Hs])
         ev = np.linalg.eigvalsh(A)
         lim = 0.0 if strict else -1e-12 * max(1.0, abs(ev).max())
+        if slack is not None:
+            lim = -float(Fraction(slack) / p2) - 1e-12 * abs(ev).max()
         if not (ev.min() > lim):
             return False, f"{what}: smallest eigenvalue {ev.min():.3e}"
         if strict:
@@ -1195,15 +2996,35 @@ class C07(PropertyCheck):
         t = inp["tables"]
         args = [Fraction(a) for a in inp["args"]]
         n = t["params"]
+        bad = [(i, j, v) for i, r in enumerate(obs["matrix"]) for j, v in enumerate(r) if v in ("nan", "inf", "-inf")]
+        if bad or any(v in ("nan", "inf", "-inf") for v in obs["weights"]):
+            what = f"entry ({bad[0][0]},{bad[0][1]}) is {bad[0][2]}" if bad else "a reported weight is not finite"
+            return False, f"{name}: the regularization matrix / weights are not finite: {what}"
         H = [[Fraction(v) for v in r] for r in obs["matrix"]]
         w = [Fraction(v) for v in obs["weights"]]
         rho = Fraction(RIDGE)
+        # decades streams: values of any magnitude, so every tolerance is relative to the magnitudes involved
+        dec = bool(case.get("decade"))
+        wtol = Fraction(1, 2 ** 20) if case.get("f32") else Fraction(1, 10 ** 12)
         # size = parameter count
         if obs["shape"] != [n, n] or len(w) != n:
             return False, f"{name}: matrix shape {obs['shape']} / {len(w)} weights for {n} parameters"
         real_mesh = case["source"] != "mock"
         sym_tables = real_mesh or case.get("symmetric", False)
+        if "neighbors" in t and any(not (0 <= sz <= len(row)) for sz, row in zip(t["sizes"], t["neighbors"])):
+            return False, "malformed neighbour table: a size is negative or exceeds the table width"
         pairs = self._pairs(t["neighbors"], t["sizes"]) if "neighbors" in t else []
+        closed_in = inp.get("closed") or {}
+        if real_mesh and closed_in.get("mesh_shape") and "neighbors" in t:
+            # a rectangular mesh: the table is the 4-connectivity of its shape (stated independently of the code)
+            mh, mw = closed_in["mesh_shape"]
+            T, S = self._rect_table(mh, mw)
+            if [list(r) for r in t["neighbors"]] != T.tolist() or list(t["sizes"]) != S.tolist():
+                return False, f"the neighbour table of the {mh} x {mw} rectangular mesh is not its 4-connectivity"
+        if real_mesh and "simplices" in inp and "neighbors" in t:
+            e = {(a, b) for sx in inp["simplices"] for a in sx for b in sx if a != b}
+            if set(pairs) != e or len(pairs) != len(e):
+                return False, "the Delaunay mesh's neighbour table is not the edge relation of its triangulation"
         if name in ("Constant", "ConstantZeroth", "AdaptiveBrightness"):
             if any(not (0 <= j < n) for _, j in pairs):
                 return False, "neighbour table has an out-of-range index"
@@ -1246,7 +3067,7 @@ class C07(PropertyCheck):
             s = [Fraction(v) for v in t["signals"]]
             for k in range(n):
                 e = (args[0] * s[k] + args[1] * (1 - s[k])) ** 2
-                if abs(w[k] - e) > Fraction(1, 10 ** 12) * max(1, abs(e)):
+                if abs(w[k] - e) > wtol * (abs(e) if dec else max(1, abs(e))):
                     return False, f"{name}: weight {k} = {float(w[k])!r}, expected (inner*s+outer*(1-s))^2 = {float(e)!r}"
             if real_mesh and args[0] > 0 and args[1] > 0:
                 # C07.adaptive_brightness_weights_pos: signals of a real mapper lie in [0, 1]
@@ -1258,7 +3079,7 @@ class C07(PropertyCheck):
             s = [Fraction(v) for v in t["signals"]]
             for k in range(n):
                 e = args[0] * (1 - s[k])
-                if abs(w[k] - e) > Fraction(1, 10 ** 12) * max(1, abs(e)):
+                if abs(w[k] - e) > wtol * (abs(e) if dec else max(1, abs(e))):
                     return False, f"{name}: weight {k} = {float(w[k])!r}, expected coefficient*(1-s) = {float(e)!r}"
         # ---------------------------------------------------------------- quadratic form
         def expected(x):
@@ -1299,10 +3120,15 @@ class C07(PropertyCheck):
             if real_mesh and any(not (1 <= sz < width) for sz in sp["sizes"]):
                 return False, "a cross-point row of the mapper is empty or fills the whole array width"
         if name not in KERNEL_SCHEMES:
-            for x in test_vectors(n * 31 + len(pairs), n):
-                got = quad(H, x)
+            HI = IntMat(H)
+            vecs = test_vectors(n * 31 + len(pairs), n)
+            if case.get("light"):
+                vecs = vecs[:1] + vecs[-4:]
+            for x in vecs:
+                got, gabs = HI.quad_both(x)
                 e = expected(x)
-                tol = Fraction(1, 10 ** 11) * quad_abs(H, x) + Fraction(1, 10 ** 24)
+                tol = (Fraction(1, 2 ** 18) if case.get("f32") else Fraction(1, 10 ** 11)) * gabs \
+                    + (0 if dec else Fraction(1, 10 ** 24))
                 if abs(got - e) > tol:
                     return False, (f"{name}: x^T H x = {float(got)!r} but the stated quadratic form gives "
                                    f"{float(e)!r} for x = {[float(v) for v in x]}")
@@ -1332,8 +3158,15 @@ class C07(PropertyCheck):
                 return False, dc
         # ---------------------------------------------------------------- definiteness
         strict = name in PD_SCHEMES and (sym_tables or name not in ("Constant", "ConstantZeroth"))
+        slack = None
+        if name not in KERNEL_SCHEMES and mx > rho * 2 ** 40:
+            # the 1e-8 ridge is (partly) below the rounding unit of the diagonal entries it is added to: in doubles
+            # the matrix is the exactly singular neighbour-difference form and strictness is a matter of IEEE
+            # rounding, which is outside the property; semi-definiteness up to that rounding is still demanded
+            strict = False
+            slack = mx * n / 2 ** 44
         if need_sym:
-            ok, d = self._check_pd(H, n, strict, name)
+            ok, d = self._check_pd(H, n, strict, name, slack=slack)
             if not ok:
                 return False, d
         return True, ""
@@ -1377,11 +3210,12 @@ class C07(PropertyCheck):
                     for j in range(i):
                         if H[i][j] != H[j][i]:
                             return False, "pixel_splitted matrix not symmetric"
+                HI = IntMat(H)
                 for x in test_vectors(n, n):
                     e = rho * sum(v * v for v in x) + sum(
                         om[k // 4] ** 2 * sum(a * b for a, b in zip(v, x)) ** 2 for k, v in enumerate(vs))
-                    got = quad(H, x)
-                    if abs(got - e) > Fraction(1, 10 ** 11) * quad_abs(H, x) + Fraction(1, 10 ** 24):
+                    got, gabs = HI.quad_both(x)
+                    if abs(got - e) > Fraction(1, 10 ** 11) * gabs + Fraction(1, 10 ** 24):
                         return False, f"pixel_splitted: x^T H x = {float(got)!r}, expected {float(e)!r}"
                 return self._check_pd(H, n, True, "pixel_splitted")
             return True, ""
@@ -1392,6 +3226,7 @@ class C07(PropertyCheck):
         W = [Fraction(v) ** 2 for v in case["weights"]]
         if len(H) != n or any(len(r) != n for r in H):
             return False, f"{fn}: wrong shape"
+        HI = IntMat(H) if len(H) == n and all(len(r) == n for r in H) else None
         for x in test_vectors(n + 5, n):
             xx = sum(v * v for v in x)
             if fn == "constant":
@@ -1404,8 +3239,8 @@ class C07(PropertyCheck):
                 e = sum(W[b] ** 1 * (x[a] - x[b]) ** 2 for a, b in pairs) + rho * xx
             else:
                 e = sum(W[i] * x[i] ** 2 for i in range(n))
-            got = quad(H, x)
-            if abs(got - e) > Fraction(1, 10 ** 11) * quad_abs(H, x) + Fraction(1, 10 ** 24):
+            got, gabs = HI.quad_both(x)
+            if abs(got - e) > Fraction(1, 10 ** 11) * gabs + Fraction(1, 10 ** 24):
                 return False, f"{fn}: x^T H x = {float(got)!r}, stated form gives {float(e)!r}, x = {[float(v) for v in x]}"
         if fn in ("weighted", "zeroth", "brightness_zeroth"):
             for i in range(n):
@@ -1561,6 +3396,10 @@ class C07(PropertyCheck):
             return len(case["objs"]) >= 2
         if kind == "history":
             return len({(st["scheme"], tuple(st["args"])) for st in case["steps"]}) >= 2
+        if kind in READS_KINDS:
+            return len(obs.get("reads", [])) >= 2
+        if kind == "large":
+            return True
         return case.get("n", 2) >= 2
 
     def shrink(self, case):
@@ -1576,6 +3415,43 @@ class C07(PropertyCheck):
         if case["kind"] == "inversion" and len(case["objs"]) > 1:
             for i in range(len(case["objs"])):
                 yield {**case, "objs": case["objs"][:i] + case["objs"][i + 1:]}
+        if case["kind"] == "reuse":
+            # (ownership histories are not shrunk: what they find is process-wide state, and in a process already
+            #  polluted every shorter variant fails too — the replay would be a single read that a fresh process passes)
+            steps = case["steps"]
+            base = {k: v for k, v in case.items() if not k.startswith("_")}
+            for i in range(len(steps) - 1, -1, -1):
+                rest = steps[:i] + steps[i + 1:]
+                if any(st["op"] == "eval" for st in rest):
+                    yield {**base, "steps": rest}
+            if len(case["worlds"]) > 1 and all(st.get("world", 0) == 0 for st in steps) \
+                    and all(w.get("share_mesh_with") is None for w in case["worlds"]):
+                yield {**base, "worlds": case["worlds"][:1]}
+        if case["kind"] == "large":
+            rec = case["recipe"]
+            c = case.get("hint")
+            if rec in ("rect", "delaunay", "mock"):
+                t = case["t"]
+                cands = [c + 1, c, c - 1] if c else [t * 3 // 4, t - 1]
+                if case.get("lattice"):
+                    lh, lw, sp_, asp = case["lattice"]
+                    for a, b in ((lh - 1, lw), (lh, lw - 1), (lh * 3 // 4, lw), (lh, lw * 3 // 4)):
+                        if a >= 5 and b >= 5 and (a, b) != (lh, lw):
+                            yield {**case, "lattice": [a, b, sp_, asp], "t": a * b}
+                    return
+                for t2 in cands:
+                    if 12 <= t2 < t:
+                        if rec == "rect":
+                            h, w = self._factor_near(t2, 1 if (c and t2 > c) else -1 if c else 1, False)
+                            if h * w < t:
+                                yield {**case, "mesh_shape": [h, w], "t": h * w}
+                        else:
+                            yield {**case, "t": t2}
+            elif rec == "inversion" and len(case["sizes"]) > 2:
+                n = len(case["sizes"])
+                yield {**case, "sizes": case["sizes"][:n // 2]}
+                yield {**case, "sizes": case["sizes"][n // 2:]}
+                yield {**case, "sizes": case["sizes"][:-1]}
 
     def sample_view(self, case):
         return {k: v for k, v in case.items() if not k.startswith("_")}
@@ -1596,9 +3472,14 @@ class C07(PropertyCheck):
         if kind == "rect_neighbors":
             return ["C07.rect_neighbors_wellformed", "C07.rect_pairs_are_adjacent_pixels", "C07.rect_constant_spec",
                     "C07.rect_constant_zeroth_spec", "C07.rect_weighted_spec", "C07.rect_adaptive_brightness_spec"]
-        if kind == "history":
+        if kind == "history" or kind in READS_KINDS:
             return ["C07.linear_obj_without_scheme_zero_block", "C07.block_diag_entry", "C07.constant_quad_pairs",
                     "C07.weighted_quad_pairs"]
+        if kind == "large" and case.get("recipe") in ("neighbors", "signals", "inversion"):
+            return {"neighbors": ["C07.rect_neighbors_wellformed", "C07.rect_pairs_are_adjacent_pixels"],
+                    "signals": ["C07.pixel_signals_spec", "C07.pixel_signals_in_unit_interval"],
+                    "inversion": ["C07.block_diag_entry", "C07.no_regularization_index_list_spec",
+                                  "C07.reduced_is_deletion"]}[case["recipe"]]
         name = case.get("scheme") or case.get("fn")
         if kind == "scheme" and case.get("source") == "rect":
             extra = {"Constant": ["C07.rect_constant_spec"], "ConstantZeroth": ["C07.rect_constant_zeroth_spec"],
